@@ -107,9 +107,6 @@ Definition pc_ptrs (p : rpc) : list ptr :=
   | RdCasHelp tl nx => [tl; nx]
   | RdLdVal hd nx | RdCasHead hd nx _ => [hd; nx]
   | RdRel hd _ => [hd]
-  | RmLdTail hd _ => [hd]
-  | RmLdNext hd tl _ => [hd; tl]
-  | RmMF hd tl nx _ | RmChk hd tl nx _ => [hd; tl; nx]
   | _ => []
   end.
 
@@ -145,10 +142,14 @@ Definition scan_cov (t : nat) (a : N) (uth : rthread) : Prop :=
 
 Definition xpc (st : N -> status) (fmax : nat) (t : nat) (th : rthread) : Prop :=
   match rt_pc th with
+  | ReChkTail _ tl => rt_hz0 th = pa tl
+  | RdChkHead hd => rt_hz0 th = pa hd
   | RdLdNext hd tl | RdHz1 hd tl _ => pa tl = pa hd -> pl tl = pl hd
   | RdRel hd _ => st (pa hd) = SP t
   | RdScan _ _ _ => length (rt_rl th) = fmax
-  | RdFree _ srt todo kept => length (rt_rl th) = fmax /\ exists pre, rt_rl th = pre ++ todo /\ kept = filter (keepf srt) pre
+  | RdFree _ srt todo kept =>
+      length (rt_rl th) = fmax /\ (exists pre, rt_rl th = pre ++ todo /\ kept = filter (keepf srt) pre) /\ exists acc, srt = isort acc
+  | RmLdHead | RmLdTail _ _ | RmLdNext _ _ _ | RmMF _ _ _ _ | RmChk _ _ _ _ => rt_cur th = Some LEmp
   | _ => True
   end.
 
@@ -166,6 +167,8 @@ Record Rel (c : rstate) (s : lstate) (L : list N) (la : N -> N) (st : N -> statu
   G_U : forall a, st a = SU <-> (a = 0 \/ r_bump c <= a);
   G_F : forall a, st a = SF <-> In a (r_free c);
   G_Fnd : NoDup (r_free c);
+  G_bump : 1 <= r_bump c;
+  G_lid : 1 <= r_lid c;
   G_own : forall a, st a <> SU -> aget (r_own c) a < r_lid c /\ aget (r_own c) a <> 0 /\ la (aget (r_own c) a) = a;
   G_R : forall t th a, nth_error (r_thr c) t = Some th -> In a (eff_rl th) -> st a = SR t;
   G_Rnd : forall t th, nth_error (r_thr c) t = Some th -> NoDup (rt_rl th);
@@ -200,20 +203,1220 @@ Proof.
     exists (mkLT LIdle None (filter notemp p) []). split.
     + unfold aprogs. rewrite !nth_error_map, Hp. reflexivity.
     + repeat split.
-  - intros a H1 _. destruct (N.eqb_spec a 1) as [->|]; [reflexivity|congruence].
-  - intros a. destruct (N.eqb_spec a 1) as [->|]; split; intros H; try discriminate; try lia. destruct H; [left; assumption|right; lia].
+  - intros a H1 _. destruct (N.eqb_spec a 1) as [E|E]; [subst a; reflexivity|congruence].
+  - intros a. destruct (N.eqb_spec a 1) as [E|E]; split; intros H; try discriminate; try reflexivity; try (exfalso; lia); lia.
   - intros a. destruct (a =? 1); split; intros H; try discriminate; destruct H.
   - constructor.
-  - intros a H. destruct (N.eqb_spec a 1) as [->|]; [|congruence]. cbn. repeat split; lia.
+  - lia.
+  - lia.
+  - intros a H. destruct (N.eqb_spec a 1) as [E|E]; [subst a|congruence]. cbn. repeat split; lia.
   - intros t th a H. destruct (Hth t th H) as (p & _ & ->). intros [].
   - intros t th H. destruct (Hth t th H) as (p & _ & ->). constructor.
   - intros l [<-|[]]. cbn. split; reflexivity.
   - intros t th nd H. destruct (Hth t th H) as (p & _ & ->). discriminate.
   - right. cbn. repeat split; lia.
   - right. cbn. repeat split; lia.
-  - intros a H. destruct (N.eqb_spec a 1) as [->|]; [|congruence]. left. split; reflexivity.
+  - intros a H. destruct (N.eqb_spec a 1) as [E|E]; [subst a|congruence]. left. split; reflexivity.
   - intros t th p H. destruct (Hth t th H) as (p0 & _ & ->). intros [].
   - intros t th p H. destruct (Hth t th H) as (p0 & _ & ->). discriminate.
   - intros t th p u uth H. destruct (Hth t th H) as (p0 & _ & ->). discriminate.
   - intros t th H. destruct (Hth t th H) as (p0 & _ & ->). exact I.
 Qed.
+
+(* ------------------------------------------------------------------ re-establishing Rel after a thread-local step *)
+Lemma nth_rwith c t th' t2 :
+  nth_error (r_thr (rwith_thr c t th')) t2 =
+  if Nat.eq_dec t t2 then (match nth_error (r_thr c) t with Some _ => Some th' | None => None end) else nth_error (r_thr c) t2.
+Proof.
+  cbn [rwith_thr r_thr]. destruct (Nat.eq_dec t t2) as [<-|Hne].
+  - destruct (nth_error (r_thr c) t) eqn:E; [eapply nth_lset_eq; eauto|].
+    apply nth_error_None. rewrite lset_length. apply nth_error_None. exact E.
+  - apply nth_lset_ne. exact Hne.
+Qed.
+
+Lemma nth_lset_case {A} (l : list A) t x t2 y :
+  nth_error (lset_nth l t x) t2 = Some y ->
+  (t2 = t /\ y = x /\ (t < length l)%nat) \/ (t2 <> t /\ nth_error l t2 = Some y).
+Proof.
+  intros H. destruct (Nat.eq_dec t t2) as [<-|Hne].
+  - left. assert (Hlt : (t < length l)%nat).
+    { rewrite <- (lset_length l t x). apply nth_error_Some. congruence. }
+    rewrite nth_lset_eq' in H by exact Hlt. injection H as <-. auto.
+  - right. rewrite nth_lset_ne in H by exact Hne. split; [congruence|exact H].
+Qed.
+
+Lemma rel_local c s L la st t th th' lt' tl' :
+  Rel c s L la st ->
+  nth_error (r_thr c) t = Some th ->
+  threl (pl (r_head c)) th' lt' ->
+  gp la (r_lid c) tl' ->
+  NoDup (rt_rl th') -> eff_rl th' = eff_rl th ->
+  (forall p, In p (pc_ptrs (rt_pc th')) -> gp la (r_lid c) p) ->
+  (forall nd, rpriv (rt_pc th') = Some nd -> rpriv (rt_pc th) = Some nd) ->
+  (forall p, prot0 (rt_pc th') = Some p ->
+     rt_hz0 th' = pa p /\ aget (r_own c) (pa p) = pl p /\ st (pa p) <> SF /\ st (pa p) <> SU /\
+     (forall u uth, u <> t -> nth_error (r_thr c) u = Some uth -> scan_cov t (pa p) uth) /\
+     scan_cov t (pa p) th') ->
+  (forall u uth p, u <> t -> nth_error (r_thr c) u = Some uth -> prot0 (rt_pc uth) = Some p -> scan_cov u (pa p) th') ->
+  xpc st (r_fmax c) t th' ->
+  Rel (rwith_tail c tl' t th')
+      (mkLS (s_heap s) (s_head s) (pl tl') (s_fresh s) (lset_nth (s_thr s) t lt') (g_enq s) (g_deq s)) L la st.
+Proof.
+  intros R Hth Htr Hgt Hrl Heff Hgp Hpriv Hprot Hsc Hx.
+  assert (Hlt : (t < length (r_thr c))%nat) by (apply nth_error_Some; congruence).
+  destruct R. constructor; cbn [rwith_tail r_head r_tail r_lid rg_enq rg_deq r_thr r_heap r_own r_free r_bump r_fmax
+                                s_head s_tail s_fresh g_enq g_deq s_thr s_heap]; auto.
+  - rewrite !lset_length. assumption.
+  - intros t2 rt H. apply nth_lset_case in H. destruct H as [(-> & -> & _)|(Hne & H)].
+    + exists lt'. split; [apply nth_lset_eq'; lia|exact Htr].
+    + rewrite nth_lset_ne by congruence. auto.
+  - intros t2 th2 a H Ha. apply nth_lset_case in H. destruct H as [(-> & -> & _)|(Hne & H)].
+    + rewrite Heff in Ha. eauto.
+    + eauto.
+  - intros t2 th2 H. apply nth_lset_case in H. destruct H as [(-> & -> & _)|(Hne & H)]; eauto.
+  - intros t2 th2 nd H Hp. apply nth_lset_case in H. destruct H as [(-> & -> & _)|(Hne & H)].
+    + eapply G_priv0; [exact Hth|auto].
+    + eauto.
+  - intros t2 th2 p H Hp. apply nth_lset_case in H. destruct H as [(-> & -> & _)|(Hne & H)]; eauto.
+  - intros t2 th2 p H Hp. apply nth_lset_case in H. destruct H as [(-> & -> & _)|(Hne & H)].
+    + destruct (Hprot p Hp) as (A & B & C & D & _). auto.
+    + eauto.
+  - intros t2 th2 p u uth H Hp Hu.
+    apply nth_lset_case in H. apply nth_lset_case in Hu.
+    destruct H as [(-> & -> & _)|(Hne & H)]; destruct Hu as [(-> & -> & _)|(Hne2 & Hu)].
+    + apply Hprot; exact Hp.
+    + destruct (Hprot p Hp) as (_ & _ & _ & _ & E & _). eapply E; eauto.
+    + eapply Hsc; eauto.
+    + eauto.
+  - intros t2 th2 H. apply nth_lset_case in H. destruct H as [(-> & -> & _)|(Hne & H)]; eauto.
+Qed.
+
+(* ------------------------------------------------------------------ the fresh-id side *)
+Definition notlink (s : lstate) (t : nat) : Prop :=
+  forall th nd tl, nth_error (s_thr s) t = Some th -> lt_pc th = QeCasLink nd tl -> n_next (hget (s_heap s) tl) <> 0.
+
+Lemma abs1 s L t s' r : Inv s L -> TInv s L -> lstep s t = Some (s', r) -> notlink s t -> Inv s' L /\ TInv s' L.
+Proof.
+  intros HI HT Hs Hn. destruct (step_tinv _ _ _ _ _ HI HT Hs) as (X & A & B & [->|(th & nd & tl & H1 & H2)]).
+  - rewrite app_nil_r in A, B. auto.
+  - exfalso. destruct H2 as (H2 & H3 & _). eapply Hn; eauto.
+Qed.
+
+Lemma lrun1 s t s' r : lstep s t = Some (s', r) -> lrun s [t] = s'.
+Proof. intros H. cbn [lrun fold_left]. unfold lstep'. rewrite H. reflexivity. Qed.
+
+Lemma lrun_app s a b : lrun s (a ++ b) = lrun (lrun s a) b.
+Proof. unfold lrun. apply fold_left_app. Qed.
+
+Lemma lset_same {A} (l : list A) t x : nth_error l t = Some x -> lset_nth l t x = l.
+Proof. revert t; induction l as [|a l IH]; intros [|t] H; cbn in *; try discriminate; [congruence|]. rewrite IH; auto. Qed.
+
+Lemma with_thr_same s t lt : nth_error (s_thr s) t = Some lt -> with_thr s t lt = s.
+Proof. intros H. unfold with_thr. rewrite (lset_same _ _ _ H). destruct s; reflexivity. Qed.
+
+Lemma with_thr_twice s t a b : with_thr (with_thr s t a) t b = with_thr s t b.
+Proof. unfold with_thr; cbn [s_heap s_head s_tail s_fresh s_thr g_enq g_deq]. rewrite lset_lset. reflexivity. Qed.
+
+Lemma nth_with_thr s t a : (t < length (s_thr s))%nat -> nth_error (s_thr (with_thr s t a)) t = Some a.
+Proof. intros H. cbn [with_thr s_thr]. apply nth_lset_eq'. exact H. Qed.
+
+Definition Sim (c : rstate) (s : lstate) (L : list N) : Prop := exists la st, Rel c s L la st.
+
+(* ---- pointer facts *)
+Lemma gp_null la lid p : gp la lid p -> (pa p =? 0) = (pl p =? 0).
+Proof. intros [[-> ->]|(A & B & _)]; [reflexivity|]. destruct (N.eqb_spec (pa p) 0), (N.eqb_spec (pl p) 0); congruence. Qed.
+Lemma gp_lid_addr la lid p q : gp la lid p -> gp la lid q -> pl p = pl q -> pa p = pa q.
+Proof.
+  intros [[A B]|(A & B & C & D)] [[E F]|(E & F & G & H)] Heq; try congruence.
+Qed.
+Lemma gp_pnull la lid : gp la lid pnull.
+Proof. left; split; reflexivity. Qed.
+
+(* ------------------------------------------------------------------ small facts used by the step cases *)
+Lemma nth_in_skipn {A} (l : list A) : forall k j x, nth_error l j = Some x -> (k <= j)%nat -> In x (skipn k l).
+Proof.
+  induction l as [|a l IH]; intros k j x H Hk; [destruct j; discriminate|].
+  destruct k as [|k]; [eapply nth_error_In; eauto|].
+  destruct j as [|j]; [lia|]. cbn [skipn]. eapply IH; [exact H|lia].
+Qed.
+Lemma nodup_not_firstn {A} (l : list A) : forall k x, NoDup l -> nth_error l k = Some x -> ~ In x (firstn k l).
+Proof.
+  intros k x Hnd Hk Hin. destruct (in_firstn_nth _ _ _ Hin) as (i & Hi & Hn).
+  assert (i = k) by (eapply nodup_idx; eauto). lia.
+Qed.
+Lemma in_skipn_nth {A} (l : list A) : forall k x, In x (skipn k l) -> exists j, (k <= j)%nat /\ nth_error l j = Some x.
+Proof.
+  induction l as [|a l IH]; intros k x H; [destruct k; destruct H|].
+  destruct k as [|k].
+  - destruct (In_nth_error _ _ H) as [j Hj]. exists j. split; [lia|exact Hj].
+  - cbn [skipn] in H. destruct (IH k x H) as (j & Hj & Hn). exists (S j). split; [lia|exact Hn].
+Qed.
+Lemma filter_len_eq {A} (f : A -> bool) (l : list A) : length (filter f l) = length l -> filter f l = l.
+Proof.
+  induction l as [|a l IH]; [reflexivity|]. cbn [filter]. destruct (f a); cbn [length]; intros H.
+  - f_equal. apply IH. lia.
+  - pose proof (filter_len_le f l). lia.
+Qed.
+Lemma found_sorted acc a : In a (isort acc) -> binary_search (isort acc) a (N.of_nat (length (isort acc))) = Some true.
+Proof.
+  intros Hin. destruct (In_nth _ _ 0 Hin) as [n [Hn Hnth]].
+  apply (bsearch_finds _ a _ (N.of_nat n)).
+  - intros j k Hjk Hk. apply isort_sorted_at; [exact Hjk|]. rewrite isort_length in Hk. exact Hk.
+  - lia.
+  - unfold at_. rewrite Nat2N.id. exact Hnth.
+Qed.
+
+Lemma rfin_proj th r : rt_pc (rfinish th r) = RIdle /\ rt_cur (rfinish th r) = None /\ rt_ops (rfinish th r) = rt_ops th /\
+  rt_rl (rfinish th r) = rt_rl th /\ rt_hz0 (rfinish th r) = rt_hz0 th /\ rt_hz1 (rfinish th r) = rt_hz1 th.
+Proof. unfold rfinish. destruct (rt_cur th); repeat split; reflexivity. Qed.
+
+Lemma acur_some x o : acur x = Some o -> x = Some o /\ notemp o = true.
+Proof. destruct x as [[v| |]|]; cbn; intros H; try discriminate; injection H as <-; auto. Qed.
+
+Lemma threl_mk hdl th th' lt lt' :
+  threl hdl th lt -> rt_cur th' = rt_cur th -> rt_ops th' = rt_ops th -> rt_out th' = rt_out th ->
+  lt_cur lt' = lt_cur lt -> lt_ops lt' = lt_ops lt -> lt_out lt' = lt_out lt ->
+  pcr hdl (rt_pc th') (lt_pc lt') -> threl hdl th' lt'.
+Proof. intros (A & B & C & D) E1 E2 E3 E4 E5 E6 P. repeat split; congruence. Qed.
+
+Lemma threl_fin hdl th th' lt r o :
+  threl hdl th lt -> lt_cur lt = Some o -> rt_pc th' = RIdle -> rt_cur th' = None -> rt_ops th' = rt_ops th ->
+  rt_out th' = rt_out (rfinish th r) -> threl hdl th' (lfinish lt r).
+Proof.
+  intros (A & B & C & D) Hc E1 E2 E3 E4. rewrite Hc in B. symmetry in B. apply acur_some in B. destruct B as [B1 B2].
+  unfold lfinish. rewrite Hc. unfold rfinish in E4. rewrite B1 in E4. cbn [rt_out] in E4.
+  repeat split; cbn [lt_pc lt_cur lt_ops lt_out].
+  - rewrite E1. reflexivity.
+  - rewrite E2. reflexivity.
+  - congruence.
+  - rewrite E4, filter_app, D. simpl filter. change (notemp_out (o, r)) with (notemp o). rewrite B2. reflexivity.
+Qed.
+
+Lemma threl_fin_emp hdl th th' lt r :
+  threl hdl th lt -> lt_pc lt = LIdle -> rt_cur th = Some LEmp -> rt_pc th' = RIdle -> rt_cur th' = None -> rt_ops th' = rt_ops th ->
+  rt_out th' = rt_out (rfinish th r) -> threl hdl th' lt.
+Proof.
+  intros (A & B & C & D) Hp Hc E1 E2 E3 E4. unfold rfinish in E4. rewrite Hc in E4. cbn [rt_out] in E4.
+  rewrite Hc in B. cbn [acur] in B.
+  repeat split.
+  - rewrite E1, Hp. reflexivity.
+  - rewrite E2. exact B.
+  - congruence.
+  - rewrite E4, filter_app, D. simpl. rewrite app_nil_r. reflexivity.
+Qed.
+
+Lemma cov_fresh c s L la st t a u uth :
+  Rel c s L la st -> nth_error (r_thr c) u = Some uth -> st a = SA -> scan_cov t a uth.
+Proof.
+  intros R Hu Ha. unfold scan_cov. destruct (rt_pc uth) eqn:E; auto.
+  - intros Hin _. exfalso. assert (H : st a = SR u).
+    { eapply (G_R _ _ _ _ _ R u uth); [exact Hu|]. unfold eff_rl. rewrite E. exact Hin. }
+    congruence.
+  - intros Hin. exfalso. assert (H : st a = SR u).
+    { eapply (G_R _ _ _ _ _ R u uth); [exact Hu|]. unfold eff_rl. rewrite E. apply in_or_app; right; exact Hin. }
+    congruence.
+Qed.
+
+Lemma gp_nonnull la lid p : gp la lid p -> pl p <> 0 -> pa p <> 0 /\ la (pl p) = pa p.
+Proof. intros [[A B]|(A & B & C & D)] H; [congruence|auto]. Qed.
+
+Lemma tail_live c s L la st : Inv s L -> TInv s L -> Rel c s L la st ->
+  st (pa (r_tail c)) = SA /\ aget (r_own c) (pa (r_tail c)) = pl (r_tail c) /\ pa (r_tail c) <> 0.
+Proof.
+  intros (G & _) ((j & Hj & Hle) & _) R.
+  rewrite (R_tail _ _ _ _ _ R), (R_deq _ _ _ _ _ R) in *.
+  assert (Hin : In (pl (r_tail c)) (skipn (length (rg_deq c)) L)) by (eapply nth_in_skipn; eauto).
+  destruct (G_chain _ _ _ _ _ R _ Hin) as [A B].
+  assert (Hnz : pl (r_tail c) <> 0).
+  { apply nth_error_In in Hj. apply (g_rng _ _ _ _ _ _ _ G) in Hj. lia. }
+  destruct (gp_nonnull _ _ _ (G_gpt _ _ _ _ _ R) Hnz) as [C D]. rewrite D in A, B. auto.
+Qed.
+
+Lemma head_live c s L la st : Inv s L -> Rel c s L la st ->
+  st (pa (r_head c)) = SA /\ aget (r_own c) (pa (r_head c)) = pl (r_head c) /\ pa (r_head c) <> 0.
+Proof.
+  intros (G & _) R. pose proof (g_head _ _ _ _ _ _ _ G) as Hj.
+  rewrite (R_head _ _ _ _ _ R), (R_deq _ _ _ _ _ R) in *.
+  assert (Hin : In (pl (r_head c)) (skipn (length (rg_deq c)) L)) by (eapply nth_in_skipn; eauto).
+  destruct (G_chain _ _ _ _ _ R _ Hin) as [A B].
+  assert (Hnz : pl (r_head c) <> 0).
+  { apply nth_error_In in Hj. apply (g_rng _ _ _ _ _ _ _ G) in Hj. lia. }
+  destruct (gp_nonnull _ _ _ (G_gph _ _ _ _ _ R) Hnz) as [C D]. rewrite D in A, B. auto.
+Qed.
+
+(* ------------------------------------------------------------------ one reclaiming step, case by case *)
+Section Step.
+  Variables (c : rstate) (s : lstate) (L : list N) (la : N -> N) (st : N -> status) (t : nat) (th : rthread) (lt : lthread).
+  Hypotheses (HI : Inv s L) (HT : TInv s L) (R : Rel c s L la st).
+  Hypotheses (Hth : nth_error (r_thr c) t = Some th) (Hlt : nth_error (s_thr s) t = Some lt).
+  Hypothesis (Htr : threl (pl (r_head c)) th lt).
+
+  Definition SGoal (c' : rstate) : Prop :=
+    exists k s' L', lrun s (repeat t k) = s' /\ Inv s' L' /\ TInv s' L' /\ Sim c' s' L'.
+
+  Let Hpcr := proj1 Htr.
+  Let Hcur := proj1 (proj2 Htr).
+
+  Lemma abs_stay : lrun s (repeat t 0) = with_thr s t lt /\ Inv (with_thr s t lt) L /\ TInv (with_thr s t lt) L.
+  Proof. rewrite (with_thr_same _ _ _ Hlt). auto. Qed.
+
+  Lemma abs_go lt' r0 : lstep s t = Some (with_thr s t lt', r0) ->
+    (forall nd tl, lt_pc lt = QeCasLink nd tl -> n_next (hget (s_heap s) tl) <> 0) ->
+    lrun s (repeat t 1) = with_thr s t lt' /\ Inv (with_thr s t lt') L /\ TInv (with_thr s t lt') L.
+  Proof.
+    intros Hs Hn. split; [eapply lrun1; eauto|]. eapply abs1; eauto.
+    intros th0 nd0 tl0 H0. rewrite Hlt in H0. injection H0 as <-. apply Hn.
+  Qed.
+
+  Lemma local_goal th' lt' k :
+    lrun s (repeat t k) = with_thr s t lt' /\ Inv (with_thr s t lt') L /\ TInv (with_thr s t lt') L ->
+    threl (pl (r_head c)) th' lt' ->
+    NoDup (rt_rl th') -> eff_rl th' = eff_rl th ->
+    (forall p, In p (pc_ptrs (rt_pc th')) -> gp la (r_lid c) p) ->
+    (forall nd, rpriv (rt_pc th') = Some nd -> rpriv (rt_pc th) = Some nd) ->
+    (forall p, prot0 (rt_pc th') = Some p ->
+       rt_hz0 th' = pa p /\ aget (r_own c) (pa p) = pl p /\ st (pa p) <> SF /\ st (pa p) <> SU /\
+       (forall u uth, u <> t -> nth_error (r_thr c) u = Some uth -> scan_cov t (pa p) uth) /\
+       scan_cov t (pa p) th') ->
+    (forall u uth p, u <> t -> nth_error (r_thr c) u = Some uth -> prot0 (rt_pc uth) = Some p -> scan_cov u (pa p) th') ->
+    xpc st (r_fmax c) t th' ->
+    SGoal (rwith_thr c t th').
+  Proof.
+    intros (A1 & A2 & A3) B1 B2 B3 B4 B5 B6 B7 B8.
+    exists k, (with_thr s t lt'), L. split; [exact A1|split; [exact A2|split; [exact A3|]]].
+    exists la, st.
+    pose proof (rel_local c s L la st t th th' lt' (r_tail c) R Hth B1 (G_gpt _ _ _ _ _ R) B2 B3 B4 B5 B6 B7 B8) as H.
+    rewrite <- (R_tail _ _ _ _ _ R) in H. exact H.
+  Qed.
+
+  (* protection of the same address as before survives *)
+  Lemma cov_keep p0 a : prot0 (rt_pc th) = Some p0 -> a = pa p0 ->
+    forall u uth, u <> t -> nth_error (r_thr c) u = Some uth -> scan_cov t a uth.
+  Proof. intros H -> u uth _ Hu. eapply (H_scan _ _ _ _ _ R); eauto. Qed.
+
+  Lemma cov_new a : st a = SA -> forall u uth, u <> t -> nth_error (r_thr c) u = Some uth -> scan_cov t a uth.
+  Proof. intros H u uth _ Hu. eapply cov_fresh; eauto. Qed.
+
+  Lemma gp_of p : In p (pc_ptrs (rt_pc th)) -> gp la (r_lid c) p.
+  Proof. apply (G_gpp _ _ _ _ _ R t th p Hth). Qed.
+
+  Lemma nodup_rl : NoDup (rt_rl th).
+  Proof. apply (G_Rnd _ _ _ _ _ R t th Hth). Qed.
+
+  Ltac absstep Hlt Hpcl := unfold lstep; rewrite Hlt; cbv zeta; rewrite Hpcl.
+  Ltac nolink Hpcl := let nd := fresh in let tl := fresh in let H := fresh in intros nd tl H; rewrite Hpcl in H; discriminate H.
+  Ltac noprot := let p := fresh in let H := fresh in intros p H; cbn in H; discriminate H.
+  Ltac nocov := intros; unfold scan_cov; cbn; exact I.
+
+  (* ---- enqueue, thread-local steps *)
+  Lemma case_ReLdTail nd : rt_pc th = ReLdTail nd -> SGoal (rwith_thr c t (rgoto th (ReHz nd (r_tail c)))).
+  Proof.
+    intros Hpc. pose proof Hpcr as Hpcl. rewrite Hpc in Hpcl. cbn [pcr apc] in Hpcl.
+    eapply local_goal with (lt' := lgoto lt (QeHz (pl nd) (s_tail s))).
+    - apply abs_go with (r0 := None); [absstep Hlt Hpcl; reflexivity|nolink Hpcl].
+    - eapply threl_mk; try exact Htr; try reflexivity. cbn. rewrite (R_tail _ _ _ _ _ R). reflexivity.
+    - apply nodup_rl.
+    - unfold eff_rl. rewrite Hpc. reflexivity.
+    - cbn. intros p [<-|[<-|[]]]; [apply gp_of; rewrite Hpc; left; reflexivity|apply (G_gpt _ _ _ _ _ R)].
+    - cbn. rewrite Hpc. auto.
+    - noprot.
+    - nocov.
+    - exact I.
+  Qed.
+
+  Lemma case_ReHz nd tl : rt_pc th = ReHz nd tl -> SGoal (rwith_thr c t (set_hz0 (rgoto th (ReChkTail nd tl)) (pa tl))).
+  Proof.
+    intros Hpc. pose proof Hpcr as Hpcl. rewrite Hpc in Hpcl. cbn [pcr apc] in Hpcl.
+    eapply local_goal with (lt' := lgoto lt (QeChkTail (pl nd) (pl tl))).
+    - apply abs_go with (r0 := None); [absstep Hlt Hpcl; reflexivity|nolink Hpcl].
+    - eapply threl_mk; try exact Htr; try reflexivity.
+    - apply nodup_rl.
+    - unfold eff_rl. rewrite Hpc. reflexivity.
+    - cbn. intros p Hp. apply gp_of. rewrite Hpc. exact Hp.
+    - cbn. rewrite Hpc. auto.
+    - noprot.
+    - nocov.
+    - reflexivity.
+  Qed.
+
+  Lemma case_ReChkTail nd tl : rt_pc th = ReChkTail nd tl ->
+    SGoal (rwith_thr c t (rgoto th (if pa tl =? pa (r_tail c) then ReLdNext nd (r_tail c) else ReLdTail nd))).
+  Proof.
+    intros Hpc. pose proof Hpcr as Hpcl. rewrite Hpc in Hpcl. cbn [pcr apc] in Hpcl.
+    pose proof (X_pc _ _ _ _ _ R t th Hth) as Hx. unfold xpc in Hx. rewrite Hpc in Hx.
+    assert (Hgnd : gp la (r_lid c) nd) by (apply gp_of; rewrite Hpc; left; reflexivity).
+    assert (Hgtl : gp la (r_lid c) tl) by (apply gp_of; rewrite Hpc; right; left; reflexivity).
+    destruct (tail_live _ _ _ _ _ HI HT R) as (TA & TB & TC).
+    assert (Hlen : (t < length (s_thr s))%nat) by (apply nth_error_Some; congruence).
+    destruct (N.eqb_spec (pa tl) (pa (r_tail c))) as [Ea|Ea].
+    - (* validation succeeds; possibly on a re-used address *)
+      assert (Habs : exists k, lrun s (repeat t k) = with_thr s t (lgoto lt (QeLdNext (pl nd) (pl (r_tail c)))) /\
+                               Inv (with_thr s t (lgoto lt (QeLdNext (pl nd) (pl (r_tail c))))) L /\
+                               TInv (with_thr s t (lgoto lt (QeLdNext (pl nd) (pl (r_tail c))))) L).
+      { destruct (N.eq_dec (pl tl) (pl (r_tail c))) as [El|El].
+        * exists 1%nat. apply abs_go with (r0 := None); [|nolink Hpcl]. absstep Hlt Hpcl.
+          rewrite (R_tail _ _ _ _ _ R), <- El, N.eqb_refl, El. reflexivity.
+        * (* fails, re-load, publish, succeeds *)
+          exists 4%nat.
+          assert (S1 : lstep s t = Some (with_thr s t (lgoto lt (QeLdTail (pl nd))), None)).
+          { absstep Hlt Hpcl. rewrite (R_tail _ _ _ _ _ R). destruct (N.eqb_spec (pl tl) (pl (r_tail c))); [contradiction|reflexivity]. }
+          destruct (abs_go _ _ S1 ltac:(nolink Hpcl)) as (_ & I1 & T1).
+          set (s1 := with_thr s t (lgoto lt (QeLdTail (pl nd)))) in *.
+          assert (S2 : lstep s1 t = Some (with_thr s1 t (lgoto (lgoto lt (QeLdTail (pl nd))) (QeHz (pl nd) (s_tail s))), None)).
+          { unfold lstep. subst s1. rewrite (nth_with_thr _ _ _ Hlen). reflexivity. }
+          destruct (abs1 _ _ _ _ _ I1 T1 S2) as (I2 & T2).
+          { intros th0 nd0 tl0 H0. subst s1. rewrite (nth_with_thr _ _ _ Hlen) in H0. injection H0 as <-. intros H1; discriminate H1. }
+          set (s2 := with_thr s1 t (lgoto (lgoto lt (QeLdTail (pl nd))) (QeHz (pl nd) (s_tail s)))) in *.
+          assert (Hlen1 : (t < length (s_thr s1))%nat) by (subst s1; cbn [with_thr s_thr]; rewrite lset_length; exact Hlen).
+          assert (S3 : lstep s2 t = Some (with_thr s2 t (lgoto (lgoto (lgoto lt (QeLdTail (pl nd))) (QeHz (pl nd) (s_tail s))) (QeChkTail (pl nd) (s_tail s))), None)).
+          { unfold lstep. subst s2. rewrite (nth_with_thr _ _ _ Hlen1). reflexivity. }
+          destruct (abs1 _ _ _ _ _ I2 T2 S3) as (I3 & T3).
+          { intros th0 nd0 tl0 H0. subst s2. rewrite (nth_with_thr _ _ _ Hlen1) in H0. injection H0 as <-. intros H1; discriminate H1. }
+          set (s3 := with_thr s2 t (lgoto (lgoto (lgoto lt (QeLdTail (pl nd))) (QeHz (pl nd) (s_tail s))) (QeChkTail (pl nd) (s_tail s)))) in *.
+          assert (Hlen2 : (t < length (s_thr s2))%nat) by (subst s2; cbn [with_thr s_thr]; rewrite lset_length; exact Hlen1).
+          assert (S4 : lstep s3 t = Some (with_thr s3 t (lgoto (lgoto (lgoto (lgoto lt (QeLdTail (pl nd))) (QeHz (pl nd) (s_tail s))) (QeChkTail (pl nd) (s_tail s))) (QeLdNext (pl nd) (s_tail s))), None)).
+          { unfold lstep. subst s3. rewrite (nth_with_thr _ _ _ Hlen2). cbv zeta. cbn [lgoto lt_pc].
+            subst s2 s1. cbn [with_thr s_tail]. rewrite N.eqb_refl. reflexivity. }
+          destruct (abs1 _ _ _ _ _ I3 T3 S4) as (I4 & T4).
+          { intros th0 nd0 tl0 H0. subst s3. rewrite (nth_with_thr _ _ _ Hlen2) in H0. injection H0 as <-. intros H1; discriminate H1. }
+          assert (Efin : with_thr s3 t (lgoto (lgoto (lgoto (lgoto lt (QeLdTail (pl nd))) (QeHz (pl nd) (s_tail s))) (QeChkTail (pl nd) (s_tail s))) (QeLdNext (pl nd) (s_tail s)))
+                         = with_thr s t (lgoto lt (QeLdNext (pl nd) (pl (r_tail c))))).
+          { subst s3 s2 s1. rewrite !with_thr_twice. rewrite (R_tail _ _ _ _ _ R). reflexivity. }
+          rewrite Efin in *. split; [|split; assumption].
+          change (repeat t 4) with ([t] ++ [t] ++ [t] ++ [t]). rewrite !lrun_app.
+          rewrite (lrun1 _ _ _ _ S1). fold s1. rewrite (lrun1 _ _ _ _ S2). fold s2. rewrite (lrun1 _ _ _ _ S3). fold s3.
+          rewrite (lrun1 _ _ _ _ S4). reflexivity. }
+      destruct Habs as (k & Habs).
+      eapply local_goal with (lt' := lgoto lt (QeLdNext (pl nd) (pl (r_tail c)))) (k := k).
+      + exact Habs.
+      + eapply threl_mk; try exact Htr; try reflexivity.
+      + apply nodup_rl.
+      + unfold eff_rl. rewrite Hpc. reflexivity.
+      + cbn. intros p [<-|[<-|[]]]; [exact Hgnd|apply (G_gpt _ _ _ _ _ R)].
+      + cbn. rewrite Hpc. auto.
+      + cbn. intros p [= <-]. split; [rewrite Hx; exact Ea|]. split; [exact TB|]. split; [congruence|]. split; [congruence|].
+        split; [apply cov_new; exact TA|unfold scan_cov; cbn; exact I].
+      + nocov.
+      + exact I.
+    - eapply local_goal with (lt' := lgoto lt (QeLdTail (pl nd))).
+      + apply abs_go with (r0 := None); [|nolink Hpcl]. absstep Hlt Hpcl. rewrite (R_tail _ _ _ _ _ R).
+        destruct (N.eqb_spec (pl tl) (pl (r_tail c))) as [El|El]; [|reflexivity].
+        exfalso. apply Ea. eapply gp_lid_addr; eauto. apply (G_gpt _ _ _ _ _ R).
+      + eapply threl_mk; try exact Htr; try reflexivity.
+      + apply nodup_rl.
+      + unfold eff_rl. rewrite Hpc. reflexivity.
+      + cbn. intros p [<-|[]]. exact Hgnd.
+      + cbn. rewrite Hpc. auto.
+      + noprot.
+      + nocov.
+      + exact I.
+  Qed.
+
+  Lemma prot_facts p : prot0 (rt_pc th) = Some p ->
+    rt_hz0 th = pa p /\ aget (r_own c) (pa p) = pl p /\ st (pa p) <> SF /\ st (pa p) <> SU /\
+    hget (s_heap s) (pl p) = mkNode (rn_val (rget (r_heap c) (pa p))) (pl (rn_next (rget (r_heap c) (pa p)))) /\
+    gp la (r_lid c) (rn_next (rget (r_heap c) (pa p))).
+  Proof.
+    intros H. destruct (H_prot _ _ _ _ _ R t th p Hth H) as (A & B & C & D).
+    repeat split; auto.
+    - rewrite <- B. apply (R_heap _ _ _ _ _ R); auto.
+    - apply (G_gpn _ _ _ _ _ R); auto.
+  Qed.
+
+  Lemma keep_prot p q th' : prot0 (rt_pc th) = Some p -> pa q = pa p -> pl q = pl p -> rt_hz0 th' = rt_hz0 th -> scan_cov t (pa q) th' ->
+    rt_hz0 th' = pa q /\ aget (r_own c) (pa q) = pl q /\ st (pa q) <> SF /\ st (pa q) <> SU /\
+    (forall u uth, u <> t -> nth_error (r_thr c) u = Some uth -> scan_cov t (pa q) uth) /\ scan_cov t (pa q) th'.
+  Proof.
+    intros H Ea El Hz Hc. destruct (H_prot _ _ _ _ _ R t th p Hth H) as (A & B & C & D).
+    rewrite Ea, El in *. repeat split; auto; try congruence.
+    eapply cov_keep; eauto.
+  Qed.
+
+  Lemma case_ReLdNext nd tl : rt_pc th = ReLdNext nd tl ->
+    SGoal (rwith_thr c t (rgoto th (if pa (rn_next (rget (r_heap c) (pa tl))) =? 0 then ReCasLink nd tl
+                                     else ReCasHelp nd tl (rn_next (rget (r_heap c) (pa tl)))))).
+  Proof.
+    intros Hpc. pose proof Hpcr as Hpcl. rewrite Hpc in Hpcl. cbn [pcr apc] in Hpcl.
+    assert (Hpr : prot0 (rt_pc th) = Some tl) by (rewrite Hpc; reflexivity).
+    destruct (prot_facts tl Hpr) as (A & B & C & D & E & F).
+    set (nx := rn_next (rget (r_heap c) (pa tl))) in *.
+    assert (Hz : (pa nx =? 0) = (pl nx =? 0)) by (eapply gp_null; eauto).
+    eapply local_goal with (lt' := lgoto lt (if pl nx =? 0 then QeCasLink (pl nd) (pl tl) else QeCasHelp (pl nd) (pl tl) (pl nx))).
+    - apply abs_go with (r0 := None); [|nolink Hpcl]. absstep Hlt Hpcl. rewrite E. cbn [n_next].
+      destruct (pl nx =? 0); reflexivity.
+    - eapply threl_mk; try exact Htr; try reflexivity. cbn. rewrite Hz. destruct (pl nx =? 0); reflexivity.
+    - apply nodup_rl.
+    - unfold eff_rl. rewrite Hpc. cbn. destruct (pa nx =? 0); reflexivity.
+    - cbn. intros p Hp. destruct (pa nx =? 0); cbn in Hp.
+      + apply gp_of. rewrite Hpc. exact Hp.
+      + destruct Hp as [<-|[<-|[<-|[]]]]; [apply gp_of; rewrite Hpc; left; reflexivity|apply gp_of; rewrite Hpc; right; left; reflexivity|exact F].
+    - cbn. rewrite Hpc. destruct (pa nx =? 0); auto.
+    - intros p Hp. cbn [rgoto rt_pc] in Hp. assert (p = tl) by (destruct (pa nx =? 0); cbn in Hp; congruence). subst p.
+      apply keep_prot with (p := tl); auto. unfold scan_cov. cbn [rgoto rt_pc]. destruct (pa nx =? 0); exact I.
+    - intros. unfold scan_cov. cbn. destruct (pa nx =? 0); exact I.
+    - unfold xpc. cbn. destruct (pa nx =? 0); exact I.
+  Qed.
+
+  Lemma case_ReCasLink_fail nd tl : rt_pc th = ReCasLink nd tl -> (pa (rn_next (rget (r_heap c) (pa tl))) =? 0) = false ->
+    SGoal (rwith_thr c t (rgoto th (ReLdTail nd))).
+  Proof.
+    intros Hpc Hne. pose proof Hpcr as Hpcl. rewrite Hpc in Hpcl. cbn [pcr apc] in Hpcl.
+    assert (Hpr : prot0 (rt_pc th) = Some tl) by (rewrite Hpc; reflexivity).
+    destruct (prot_facts tl Hpr) as (A & B & C & D & E & F).
+    pose proof (gp_null _ _ _ F) as Hz. rewrite Hne in Hz. symmetry in Hz.
+    eapply local_goal with (lt' := lgoto lt (QeLdTail (pl nd))).
+    - apply abs_go with (r0 := None).
+      + absstep Hlt Hpcl. rewrite E. cbn [n_next]. rewrite Hz. reflexivity.
+      + intros nd0 tl0 H0. rewrite Hpcl in H0. injection H0 as <- <-. rewrite E. cbn [n_next].
+        destruct (N.eqb_spec (pl (rn_next (rget (r_heap c) (pa tl)))) 0); [discriminate|assumption].
+    - eapply threl_mk; try exact Htr; try reflexivity.
+    - apply nodup_rl.
+    - unfold eff_rl. rewrite Hpc. reflexivity.
+    - cbn. intros p [<-|[]]. apply gp_of. rewrite Hpc. left; reflexivity.
+    - cbn. rewrite Hpc. auto.
+    - noprot.
+    - nocov.
+    - exact I.
+  Qed.
+
+  Lemma abs_cur o : lt_cur lt = Some o -> rt_cur th = Some o /\ notemp o = true.
+  Proof. intros H. rewrite Hcur in H. apply acur_some. exact H. Qed.
+
+  Lemma case_ReHzClr : rt_pc th = ReHzClr -> SGoal (rwith_thr c t (set_hz0 (rfinish th (LInt 0)) 0)).
+  Proof.
+    intros Hpc. pose proof Hpcr as Hpcl. rewrite Hpc in Hpcl. cbn [pcr apc] in Hpcl.
+    destruct HI as (_ & TO & _). pose proof (TO t lt Hlt) as Hp. rewrite Hpcl in Hp. cbn [pcinv] in Hp. destruct Hp as (v & Hc).
+    destruct (abs_cur _ Hc) as (Hrc & _).
+    destruct (rfin_proj th (LInt 0)) as (Hf1 & Hf3 & Hf4 & Hf2 & _).
+    eapply local_goal with (lt' := lfinish lt (LInt 0)).
+    - apply abs_go with (r0 := Some (LInt 0)); [|nolink Hpcl]. absstep Hlt Hpcl. reflexivity.
+    - eapply threl_fin with (o := LEnq v); try exact Htr; try exact Hc; cbn; auto.
+    - cbn. rewrite Hf2. apply nodup_rl.
+    - unfold eff_rl. cbn. rewrite Hf1, Hf2, Hpc. reflexivity.
+    - cbn. rewrite Hf1. intros p [].
+    - cbn. rewrite Hf1. discriminate.
+    - cbn. rewrite Hf1. discriminate.
+    - intros. unfold scan_cov. cbn. rewrite Hf1. exact I.
+    - unfold xpc. cbn. rewrite Hf1. exact I.
+  Qed.
+
+  Lemma case_RIdle o rest : rt_pc th = RIdle -> rt_ops th = o :: rest ->
+    SGoal (rwith_thr c t (mkRT (rstart o) (Some o) rest (rt_out th) (rt_hz0 th) (rt_hz1 th) (rt_rl th))).
+  Proof.
+    intros Hpc Hops. pose proof Hpcr as Hpcl. rewrite Hpc in Hpcl. cbn [pcr apc] in Hpcl.
+    pose proof Htr as (_ & _ & Hops' & Hout'). rewrite Hops in Hops'.
+    pose proof HI as (_ & TO & _). pose proof (TO t lt Hlt) as Hp. rewrite Hpcl in Hp. cbn [pcinv] in Hp.
+    destruct (notemp o) eqn:Ho.
+    - cbn [filter] in Hops'. rewrite Ho in Hops'.
+      eapply local_goal with (lt' := mkLT (lstart o) (Some o) (filter notemp rest) (lt_out lt)).
+      + apply abs_go with (r0 := None); [|nolink Hpcl]. absstep Hlt Hpcl. rewrite Hops'. reflexivity.
+      + repeat split; cbn; auto. destruct o; try discriminate; reflexivity. destruct o; try discriminate; reflexivity.
+      + cbn. apply nodup_rl.
+      + unfold eff_rl. cbn. rewrite Hpc. destruct o; reflexivity.
+      + cbn. destruct o; intros p [].
+      + cbn. destruct o; discriminate.
+      + cbn. destruct o; discriminate.
+      + intros. unfold scan_cov. cbn. destruct o; exact I.
+      + unfold xpc. cbn. destruct o; try exact I. discriminate.
+    - cbn [filter] in Hops'. rewrite Ho in Hops'. destruct o; try discriminate.
+      eapply local_goal with (lt' := lt) (k := 0%nat).
+      + apply abs_stay.
+      + repeat split; cbn; auto. 
+      + cbn. apply nodup_rl.
+      + unfold eff_rl. cbn. rewrite Hpc. reflexivity.
+      + cbn. intros p [].
+      + cbn. discriminate.
+      + cbn. discriminate.
+      + intros. unfold scan_cov. cbn. exact I.
+      + unfold xpc. cbn. reflexivity.
+  Qed.
+
+  (* ---- dequeue, thread-local steps *)
+  Lemma case_RdLdHead : rt_pc th = RdLdHead -> SGoal (rwith_thr c t (rgoto th (RdHz0 (r_head c)))).
+  Proof.
+    intros Hpc. pose proof Hpcr as Hpcl. rewrite Hpc in Hpcl. cbn [pcr apc] in Hpcl.
+    eapply local_goal with (lt' := lgoto lt (QdHz0 (s_head s))).
+    - apply abs_go with (r0 := None); [absstep Hlt Hpcl; reflexivity|nolink Hpcl].
+    - eapply threl_mk; try exact Htr; try reflexivity. cbn. rewrite (R_head _ _ _ _ _ R). reflexivity.
+    - apply nodup_rl.
+    - unfold eff_rl. rewrite Hpc. reflexivity.
+    - cbn. intros p [<-|[]]. apply (G_gph _ _ _ _ _ R).
+    - cbn. discriminate.
+    - noprot.
+    - nocov.
+    - exact I.
+  Qed.
+
+  Lemma case_RdHz0 hd : rt_pc th = RdHz0 hd -> SGoal (rwith_thr c t (set_hz0 (rgoto th (RdChkHead hd)) (pa hd))).
+  Proof.
+    intros Hpc. pose proof Hpcr as Hpcl. rewrite Hpc in Hpcl. cbn [pcr apc] in Hpcl.
+    eapply local_goal with (lt' := lgoto lt (QdChkHead (pl hd))).
+    - apply abs_go with (r0 := None); [absstep Hlt Hpcl; reflexivity|nolink Hpcl].
+    - eapply threl_mk; try exact Htr; try reflexivity.
+    - apply nodup_rl.
+    - unfold eff_rl. rewrite Hpc. reflexivity.
+    - cbn. intros p Hp. apply gp_of. rewrite Hpc. exact Hp.
+    - cbn. discriminate.
+    - noprot.
+    - nocov.
+    - reflexivity.
+  Qed.
+
+  Lemma case_RdChkHead hd : rt_pc th = RdChkHead hd ->
+    SGoal (rwith_thr c t (rgoto th (if pa hd =? pa (r_head c) then RdLdTail (r_head c) else RdLdHead))).
+  Proof.
+    intros Hpc. pose proof Hpcr as Hpcl. rewrite Hpc in Hpcl. cbn [pcr apc] in Hpcl.
+    pose proof (X_pc _ _ _ _ _ R t th Hth) as Hx. unfold xpc in Hx. rewrite Hpc in Hx.
+    assert (Hghd : gp la (r_lid c) hd) by (apply gp_of; rewrite Hpc; left; reflexivity).
+    destruct (head_live _ _ _ _ _ HI R) as (TA & TB & TC).
+    assert (Hlen : (t < length (s_thr s))%nat) by (apply nth_error_Some; congruence).
+    destruct (N.eqb_spec (pa hd) (pa (r_head c))) as [Ea|Ea].
+    - assert (Habs : exists k, lrun s (repeat t k) = with_thr s t (lgoto lt (QdLdTail (pl (r_head c)))) /\
+                               Inv (with_thr s t (lgoto lt (QdLdTail (pl (r_head c))))) L /\
+                               TInv (with_thr s t (lgoto lt (QdLdTail (pl (r_head c))))) L).
+      { destruct (N.eq_dec (pl hd) (pl (r_head c))) as [El|El].
+        * exists 1%nat. apply abs_go with (r0 := None); [|nolink Hpcl]. absstep Hlt Hpcl.
+          rewrite (R_head _ _ _ _ _ R), <- El, N.eqb_refl, El. reflexivity.
+        * exists 4%nat.
+          assert (S1 : lstep s t = Some (with_thr s t (lgoto lt QdLdHead), None)).
+          { absstep Hlt Hpcl. rewrite (R_head _ _ _ _ _ R). destruct (N.eqb_spec (pl hd) (pl (r_head c))); [contradiction|reflexivity]. }
+          destruct (abs_go _ _ S1 ltac:(nolink Hpcl)) as (_ & I1 & T1).
+          set (s1 := with_thr s t (lgoto lt QdLdHead)) in *.
+          assert (S2 : lstep s1 t = Some (with_thr s1 t (lgoto (lgoto lt QdLdHead) (QdHz0 (s_head s))), None)).
+          { unfold lstep. subst s1. rewrite (nth_with_thr _ _ _ Hlen). reflexivity. }
+          destruct (abs1 _ _ _ _ _ I1 T1 S2) as (I2 & T2).
+          { intros th0 nd0 tl0 H0. subst s1. rewrite (nth_with_thr _ _ _ Hlen) in H0. injection H0 as <-. intros H1; discriminate H1. }
+          set (s2 := with_thr s1 t (lgoto (lgoto lt QdLdHead) (QdHz0 (s_head s)))) in *.
+          assert (Hlen1 : (t < length (s_thr s1))%nat) by (subst s1; cbn [with_thr s_thr]; rewrite lset_length; exact Hlen).
+          assert (S3 : lstep s2 t = Some (with_thr s2 t (lgoto (lgoto (lgoto lt QdLdHead) (QdHz0 (s_head s))) (QdChkHead (s_head s))), None)).
+          { unfold lstep. subst s2. rewrite (nth_with_thr _ _ _ Hlen1). reflexivity. }
+          destruct (abs1 _ _ _ _ _ I2 T2 S3) as (I3 & T3).
+          { intros th0 nd0 tl0 H0. subst s2. rewrite (nth_with_thr _ _ _ Hlen1) in H0. injection H0 as <-. intros H1; discriminate H1. }
+          set (s3 := with_thr s2 t (lgoto (lgoto (lgoto lt QdLdHead) (QdHz0 (s_head s))) (QdChkHead (s_head s)))) in *.
+          assert (Hlen2 : (t < length (s_thr s2))%nat) by (subst s2; cbn [with_thr s_thr]; rewrite lset_length; exact Hlen1).
+          assert (S4 : lstep s3 t = Some (with_thr s3 t (lgoto (lgoto (lgoto (lgoto lt QdLdHead) (QdHz0 (s_head s))) (QdChkHead (s_head s))) (QdLdTail (s_head s))), None)).
+          { unfold lstep. subst s3. rewrite (nth_with_thr _ _ _ Hlen2). cbv zeta. cbn [lgoto lt_pc].
+            subst s2 s1. cbn [with_thr s_head]. rewrite N.eqb_refl. reflexivity. }
+          destruct (abs1 _ _ _ _ _ I3 T3 S4) as (I4 & T4).
+          { intros th0 nd0 tl0 H0. subst s3. rewrite (nth_with_thr _ _ _ Hlen2) in H0. injection H0 as <-. intros H1; discriminate H1. }
+          assert (Efin : with_thr s3 t (lgoto (lgoto (lgoto (lgoto lt QdLdHead) (QdHz0 (s_head s))) (QdChkHead (s_head s))) (QdLdTail (s_head s)))
+                         = with_thr s t (lgoto lt (QdLdTail (pl (r_head c))))).
+          { subst s3 s2 s1. rewrite !with_thr_twice. rewrite (R_head _ _ _ _ _ R). reflexivity. }
+          rewrite Efin in *. split; [|split; assumption].
+          change (repeat t 4) with ([t] ++ [t] ++ [t] ++ [t]). rewrite !lrun_app.
+          rewrite (lrun1 _ _ _ _ S1). fold s1. rewrite (lrun1 _ _ _ _ S2). fold s2. rewrite (lrun1 _ _ _ _ S3). fold s3.
+          rewrite (lrun1 _ _ _ _ S4). reflexivity. }
+      destruct Habs as (k & Habs).
+      eapply local_goal with (lt' := lgoto lt (QdLdTail (pl (r_head c)))) (k := k).
+      + exact Habs.
+      + eapply threl_mk; try exact Htr; try reflexivity.
+      + apply nodup_rl.
+      + unfold eff_rl. rewrite Hpc. reflexivity.
+      + cbn. intros p [<-|[]]. apply (G_gph _ _ _ _ _ R).
+      + cbn. discriminate.
+      + cbn. intros p [= <-]. split; [rewrite Hx; exact Ea|]. split; [exact TB|]. split; [congruence|]. split; [congruence|].
+        split; [apply cov_new; exact TA|unfold scan_cov; cbn; exact I].
+      + nocov.
+      + exact I.
+    - eapply local_goal with (lt' := lgoto lt QdLdHead).
+      + apply abs_go with (r0 := None); [|nolink Hpcl]. absstep Hlt Hpcl. rewrite (R_head _ _ _ _ _ R).
+        destruct (N.eqb_spec (pl hd) (pl (r_head c))) as [El|El]; [|reflexivity].
+        exfalso. apply Ea. eapply gp_lid_addr; eauto. apply (G_gph _ _ _ _ _ R).
+      + eapply threl_mk; try exact Htr; try reflexivity.
+      + apply nodup_rl.
+      + unfold eff_rl. rewrite Hpc. reflexivity.
+      + cbn. intros p [].
+      + cbn. discriminate.
+      + noprot.
+      + nocov.
+      + exact I.
+  Qed.
+
+  Lemma case_RdLdTail hd : rt_pc th = RdLdTail hd -> SGoal (rwith_thr c t (rgoto th (RdLdNext hd (r_tail c)))).
+  Proof.
+    intros Hpc. pose proof Hpcr as Hpcl. rewrite Hpc in Hpcl. cbn [pcr apc] in Hpcl.
+    assert (Hpr : prot0 (rt_pc th) = Some hd) by (rewrite Hpc; reflexivity).
+    destruct (prot_facts hd Hpr) as (A & B & C & D & E & F).
+    destruct (tail_live _ _ _ _ _ HI HT R) as (TA & TB & TC).
+    eapply local_goal with (lt' := lgoto lt (QdLdNext (pl hd) (s_tail s))).
+    - apply abs_go with (r0 := None); [absstep Hlt Hpcl; reflexivity|nolink Hpcl].
+    - eapply threl_mk; try exact Htr; try reflexivity. cbn. rewrite (R_tail _ _ _ _ _ R). reflexivity.
+    - apply nodup_rl.
+    - unfold eff_rl. rewrite Hpc. reflexivity.
+    - cbn. intros p [<-|[<-|[]]]; [apply gp_of; rewrite Hpc; left; reflexivity|apply (G_gpt _ _ _ _ _ R)].
+    - cbn. discriminate.
+    - intros p Hp. cbn [rgoto rt_pc prot0] in Hp. injection Hp as <-.
+      apply keep_prot with (p := hd); auto. unfold scan_cov. cbn. exact I.
+    - nocov.
+    - unfold xpc. cbn. intros Ea. congruence.
+  Qed.
+
+  Lemma case_RdLdNext hd tl : rt_pc th = RdLdNext hd tl ->
+    SGoal (rwith_thr c t (rgoto th (RdHz1 hd tl (rn_next (rget (r_heap c) (pa hd)))))).
+  Proof.
+    intros Hpc. pose proof Hpcr as Hpcl. rewrite Hpc in Hpcl. cbn [pcr apc] in Hpcl.
+    assert (Hpr : prot0 (rt_pc th) = Some hd) by (rewrite Hpc; reflexivity).
+    destruct (prot_facts hd Hpr) as (A & B & C & D & E & F).
+    pose proof (X_pc _ _ _ _ _ R t th Hth) as Hx. unfold xpc in Hx. rewrite Hpc in Hx.
+    eapply local_goal with (lt' := lgoto lt (QdHz1 (pl hd) (pl tl) (pl (rn_next (rget (r_heap c) (pa hd)))))).
+    - apply abs_go with (r0 := None); [|nolink Hpcl]. absstep Hlt Hpcl. rewrite E. reflexivity.
+    - eapply threl_mk; try exact Htr; try reflexivity.
+    - apply nodup_rl.
+    - unfold eff_rl. rewrite Hpc. reflexivity.
+    - cbn. intros p [<-|[<-|[<-|[]]]]; [apply gp_of; rewrite Hpc; left; reflexivity|apply gp_of; rewrite Hpc; right; left; reflexivity|exact F].
+    - cbn. discriminate.
+    - intros p Hp. cbn [rgoto rt_pc prot0] in Hp. injection Hp as <-.
+      apply keep_prot with (p := hd); auto. unfold scan_cov. cbn. exact I.
+    - nocov.
+    - unfold xpc. cbn. exact Hx.
+  Qed.
+
+
+  Lemma case_RdHz1_null hd tl nx : rt_pc th = RdHz1 hd tl nx -> pa nx = 0 ->
+    SGoal (rwith_thr c t (set_hz1 (rfinish th (LPtr 0)) (pa nx))).
+  Proof.
+    intros Hpc Hz. pose proof Hpcr as Hpcl. rewrite Hpc in Hpcl. cbn [pcr apc] in Hpcl.
+    assert (Hg : gp la (r_lid c) nx) by (apply gp_of; rewrite Hpc; right; right; left; reflexivity).
+    assert (Hlz : pl nx = 0) by (destruct Hg as [[_ ?]|(? & _)]; congruence).
+    pose proof HI as (_ & TO & _). pose proof (TO t lt Hlt) as Hp. rewrite Hpcl in Hp. cbn [pcinv] in Hp. destruct Hp as (Hc & _).
+    destruct (rfin_proj th (LPtr 0)) as (Hf1 & Hf3 & Hf4 & Hf2 & _).
+    eapply local_goal with (lt' := lfinish lt (LPtr 0)).
+    - apply abs_go with (r0 := Some (LPtr 0)); [|nolink Hpcl]. absstep Hlt Hpcl. rewrite Hlz. reflexivity.
+    - eapply threl_fin with (o := LDeq); try exact Htr; try exact Hc; cbn; auto.
+    - cbn. rewrite Hf2. apply nodup_rl.
+    - unfold eff_rl. cbn. rewrite Hf1, Hf2, Hpc. reflexivity.
+    - cbn. rewrite Hf1. intros p [].
+    - cbn. rewrite Hf1. discriminate.
+    - cbn. rewrite Hf1. discriminate.
+    - intros. unfold scan_cov. cbn. rewrite Hf1. exact I.
+    - unfold xpc. cbn. rewrite Hf1. exact I.
+  Qed.
+
+  Lemma case_RdHz1_help hd tl nx : rt_pc th = RdHz1 hd tl nx -> pa nx <> 0 -> pa hd = pa tl ->
+    SGoal (rwith_thr c t (set_hz1 (rgoto th (RdCasHelp tl nx)) (pa nx))).
+  Proof.
+    intros Hpc Hnz Ea. pose proof Hpcr as Hpcl. rewrite Hpc in Hpcl. cbn [pcr apc] in Hpcl.
+    assert (Hg : gp la (r_lid c) nx) by (apply gp_of; rewrite Hpc; right; right; left; reflexivity).
+    assert (Hlz : pl nx <> 0) by (destruct Hg as [[? _]|(_ & ? & _)]; congruence).
+    pose proof (X_pc _ _ _ _ _ R t th Hth) as Hx. unfold xpc in Hx. rewrite Hpc in Hx. symmetry in Ea. specialize (Hx Ea).
+    assert (Hpr : prot0 (rt_pc th) = Some hd) by (rewrite Hpc; reflexivity).
+    eapply local_goal with (lt' := lgoto lt (QdCasHelp (pl tl) (pl nx))).
+    - apply abs_go with (r0 := None); [|nolink Hpcl]. absstep Hlt Hpcl.
+      destruct (N.eqb_spec (pl nx) 0); [contradiction|]. rewrite Hx, N.eqb_refl. reflexivity.
+    - eapply threl_mk; try exact Htr; try reflexivity.
+    - apply nodup_rl.
+    - unfold eff_rl. rewrite Hpc. reflexivity.
+    - cbn. intros p [<-|[<-|[]]]; apply gp_of; rewrite Hpc; cbn; auto.
+    - cbn. discriminate.
+    - intros p Hp. cbn [set_hz1 rgoto rt_pc prot0] in Hp. injection Hp as <-.
+      apply keep_prot with (p := hd); auto. unfold scan_cov. cbn. exact I.
+    - nocov.
+    - exact I.
+  Qed.
+
+  Lemma case_RdHz1_val hd tl nx : rt_pc th = RdHz1 hd tl nx -> pa nx <> 0 -> pa hd <> pa tl ->
+    SGoal (rwith_thr c t (set_hz1 (rgoto th (RdLdVal hd nx)) (pa nx))).
+  Proof.
+    intros Hpc Hnz Ea. pose proof Hpcr as Hpcl. rewrite Hpc in Hpcl. cbn [pcr apc] in Hpcl.
+    assert (Hg : gp la (r_lid c) nx) by (apply gp_of; rewrite Hpc; right; right; left; reflexivity).
+    assert (Hlz : pl nx <> 0) by (destruct Hg as [[? _]|(_ & ? & _)]; congruence).
+    assert (Hne : pl hd <> pl tl).
+    { intros El. apply Ea. eapply gp_lid_addr; [| |exact El]; apply gp_of; rewrite Hpc; cbn; auto. }
+    assert (Hpr : prot0 (rt_pc th) = Some hd) by (rewrite Hpc; reflexivity).
+    eapply local_goal with (lt' := lgoto lt (QdLdVal (pl hd) (pl nx))).
+    - apply abs_go with (r0 := None); [|nolink Hpcl]. absstep Hlt Hpcl.
+      destruct (N.eqb_spec (pl nx) 0); [contradiction|]. destruct (N.eqb_spec (pl hd) (pl tl)); [contradiction|]. reflexivity.
+    - eapply threl_mk; try exact Htr; try reflexivity.
+    - apply nodup_rl.
+    - unfold eff_rl. rewrite Hpc. reflexivity.
+    - cbn. intros p [<-|[<-|[]]]; apply gp_of; rewrite Hpc; cbn; auto.
+    - cbn. discriminate.
+    - intros p Hp. cbn [set_hz1 rgoto rt_pc prot0] in Hp. injection Hp as <-.
+      apply keep_prot with (p := hd); auto. unfold scan_cov. cbn. exact I.
+    - nocov.
+    - exact I.
+  Qed.
+
+  Lemma case_RdLdVal hd nx : rt_pc th = RdLdVal hd nx ->
+    SGoal (rwith_thr c t (rgoto th (RdCasHead hd nx (rn_val (rget (r_heap c) (pa nx)))))).
+  Proof.
+    intros Hpc. pose proof Hpcr as Hpcl. rewrite Hpc in Hpcl. cbn [pcr apc] in Hpcl.
+    assert (Hpr : prot0 (rt_pc th) = Some hd) by (rewrite Hpc; reflexivity).
+    assert (Hg : gp la (r_lid c) nx) by (apply gp_of; rewrite Hpc; right; left; reflexivity).
+    eapply local_goal with (lt' := lgoto lt (QdCasHead (pl hd) (pl nx) (n_val (hget (s_heap s) (pl nx))))).
+    - apply abs_go with (r0 := None); [absstep Hlt Hpcl; reflexivity|nolink Hpcl].
+    - eapply threl_mk; try exact Htr; try reflexivity. cbn.
+      exists (n_val (hget (s_heap s) (pl nx))). split; [reflexivity|]. intros Hhd.
+      pose proof HI as (G & TO & _). pose proof (TO t lt Hlt) as Hp. rewrite Hpcl in Hp. cbn [pcinv] in Hp.
+      destruct Hp as (_ & _ & Hnz & Hn). rewrite <- Hhd, <- (R_head _ _ _ _ _ R) in Hn.
+      destruct (head_succ _ _ _ _ _ _ _ G _ Hn Hnz) as [H1 _].
+      rewrite (R_deq _ _ _ _ _ R) in H1.
+      assert (Hin : In (pl nx) (skipn (length (rg_deq c)) L)) by (eapply nth_in_skipn; [exact H1|lia]).
+      destruct (G_chain _ _ _ _ _ R _ Hin) as [A B].
+      destruct (gp_nonnull _ _ _ Hg Hnz) as [C D]. rewrite D in A, B.
+      rewrite <- B at 1. rewrite (R_heap _ _ _ _ _ R (pa nx)); [reflexivity|congruence|congruence].
+    - apply nodup_rl.
+    - unfold eff_rl. rewrite Hpc. reflexivity.
+    - cbn. intros p Hp. apply gp_of. rewrite Hpc. exact Hp.
+    - cbn. discriminate.
+    - intros p Hp. cbn [rgoto rt_pc prot0] in Hp. injection Hp as <-.
+      apply keep_prot with (p := hd); auto. unfold scan_cov. cbn. exact I.
+    - nocov.
+    - exact I.
+  Qed.
+
+  (* a thread that protects p: address equality with a live shared pointer is incarnation equality *)
+  Lemma prot_cmp p q : prot0 (rt_pc th) = Some p -> gp la (r_lid c) p -> gp la (r_lid c) q ->
+    aget (r_own c) (pa q) = pl q -> (pa q =? pa p) = (pl q =? pl p).
+  Proof.
+    intros Hpr Hp Hq Hoq. destruct (H_prot _ _ _ _ _ R t th p Hth Hpr) as (_ & B & _).
+    destruct (N.eqb_spec (pa q) (pa p)) as [E|E]; destruct (N.eqb_spec (pl q) (pl p)) as [F|F]; try reflexivity.
+    - exfalso. apply F. rewrite <- Hoq, <- B, E. reflexivity.
+    - exfalso. apply E. eapply gp_lid_addr; eauto.
+  Qed.
+
+  Lemma case_RdCasHead_fail hd nx p : rt_pc th = RdCasHead hd nx p -> (pa (r_head c) =? pa hd) = false ->
+    SGoal (rwith_thr c t (rgoto th RdLdHead)).
+  Proof.
+    intros Hpc Hne. pose proof Hpcr as Hpcl. rewrite Hpc in Hpcl. cbn [pcr] in Hpcl. destruct Hpcl as (p' & Hpcl & _).
+    assert (Hpr : prot0 (rt_pc th) = Some hd) by (rewrite Hpc; reflexivity).
+    destruct (head_live _ _ _ _ _ HI R) as (TA & TB & TC).
+    assert (Hcmp := prot_cmp hd (r_head c) Hpr ltac:(apply gp_of; rewrite Hpc; left; reflexivity) (G_gph _ _ _ _ _ R) TB).
+    rewrite Hne in Hcmp.
+    eapply local_goal with (lt' := lgoto lt QdLdHead).
+    - apply abs_go with (r0 := None); [|nolink Hpcl]. absstep Hlt Hpcl. rewrite (R_head _ _ _ _ _ R), <- Hcmp. reflexivity.
+    - eapply threl_mk; try exact Htr; try reflexivity.
+    - apply nodup_rl.
+    - unfold eff_rl. rewrite Hpc. reflexivity.
+    - cbn. intros q [].
+    - cbn. discriminate.
+    - noprot.
+    - nocov.
+    - exact I.
+  Qed.
+
+  (* ---- hazardous_release_node / hazardous_scan, thread-local steps (the fresh-id machine waits at QdRel) *)
+  Lemma pcr_rel p0 : (exists x, lt_pc lt = QdRel x p0) -> forall th', rt_cur th' = rt_cur th -> rt_ops th' = rt_ops th -> rt_out th' = rt_out th ->
+    (exists x, pcr (pl (r_head c)) (rt_pc th') (QdRel x p0)) -> threl (pl (r_head c)) th' lt.
+  Proof.
+    intros (x & Hx) th' E1 E2 E3 (y & Hy). destruct Htr as (A & B & C & D). repeat split; try congruence.
+    rewrite Hx. destruct (rt_pc th'); cbn [pcr] in *; try discriminate; try (destruct Hy as (z & Hz); injection Hz as <- <-; eauto).
+    destruct Hy as (p' & Hy & _). discriminate.
+  Qed.
+
+  Lemma case_RdClr0 p0 : rt_pc th = RdClr0 p0 -> SGoal (rwith_thr c t (set_hz0 (rgoto th (RdClr1 p0)) 0)).
+  Proof.
+    intros Hpc. pose proof Hpcr as Hpcl. rewrite Hpc in Hpcl. cbn [pcr] in Hpcl.
+    eapply local_goal with (lt' := lt) (k := 0%nat).
+    - apply abs_stay.
+    - apply (pcr_rel p0 Hpcl); try reflexivity. exists 0. cbn. eauto.
+    - apply nodup_rl.
+    - unfold eff_rl. rewrite Hpc. reflexivity.
+    - cbn. intros p [].
+    - cbn. discriminate.
+    - noprot.
+    - nocov.
+    - exact I.
+  Qed.
+
+  Lemma case_RdClr1_scan p0 : rt_pc th = RdClr1 p0 -> length (rt_rl th) = r_fmax c ->
+    SGoal (rwith_thr c t (set_hz1 (rgoto th (RdScan p0 0 [])) 0)).
+  Proof.
+    intros Hpc Hlen. pose proof Hpcr as Hpcl. rewrite Hpc in Hpcl. cbn [pcr] in Hpcl.
+    eapply local_goal with (lt' := lt) (k := 0%nat).
+    - apply abs_stay.
+    - apply (pcr_rel p0 Hpcl); try reflexivity. exists 0. cbn. eauto.
+    - apply nodup_rl.
+    - unfold eff_rl. rewrite Hpc. reflexivity.
+    - cbn. intros p [].
+    - cbn. discriminate.
+    - noprot.
+    - intros u uth p _ _ _. unfold scan_cov. cbn. intros _ H9. lia.
+    - unfold xpc. cbn. exact Hlen.
+  Qed.
+
+  Lemma case_RdClr1_fin p0 : rt_pc th = RdClr1 p0 -> SGoal (rwith_thr c t (set_hz1 (rfinish th (LPtr p0)) 0)).
+  Proof.
+    intros Hpc. pose proof Hpcr as Hpcl. rewrite Hpc in Hpcl. cbn [pcr] in Hpcl. destruct Hpcl as (x & Hpcl).
+    pose proof HI as (_ & TO & _). pose proof (TO t lt Hlt) as Hp. rewrite Hpcl in Hp. cbn [pcinv] in Hp.
+    destruct (rfin_proj th (LPtr p0)) as (Hf1 & Hf3 & Hf4 & Hf2 & _).
+    eapply local_goal with (lt' := lfinish lt (LPtr p0)).
+    - apply abs_go with (r0 := Some (LPtr p0)); [|nolink Hpcl]. absstep Hlt Hpcl. reflexivity.
+    - eapply threl_fin with (o := LDeq); try exact Htr; try exact Hp; cbn; auto.
+    - cbn. rewrite Hf2. apply nodup_rl.
+    - unfold eff_rl. cbn. rewrite Hf1, Hf2, Hpc. reflexivity.
+    - cbn. rewrite Hf1. intros p [].
+    - cbn. rewrite Hf1. discriminate.
+    - cbn. rewrite Hf1. discriminate.
+    - intros. unfold scan_cov. cbn. rewrite Hf1. exact I.
+    - unfold xpc. cbn. rewrite Hf1. exact I.
+  Qed.
+
+  Lemma case_RdScan_slot p0 i acc : rt_pc th = RdScan p0 i acc ->
+    SGoal (rwith_thr c t (rgoto th (RdScan p0 (S i) (acc ++ [slot_of (r_thr c) t (Nat.div i 2) (Nat.modulo i 2)])))).
+  Proof.
+    intros Hpc. pose proof Hpcr as Hpcl. rewrite Hpc in Hpcl. cbn [pcr] in Hpcl.
+    pose proof (X_pc _ _ _ _ _ R t th Hth) as Hx. unfold xpc in Hx. rewrite Hpc in Hx.
+    eapply local_goal with (lt' := lt) (k := 0%nat).
+    - apply abs_stay.
+    - apply (pcr_rel p0 Hpcl); try reflexivity. exists 0. cbn. eauto.
+    - apply nodup_rl.
+    - unfold eff_rl. rewrite Hpc. reflexivity.
+    - cbn. intros p [].
+    - cbn. discriminate.
+    - noprot.
+    - intros u uth p Hne Hu Hp. unfold scan_cov. cbn [rgoto rt_pc rt_rl]. intros Hin Hlt2.
+      pose proof (H_scan _ _ _ _ _ R u uth p t th Hu Hp Hth) as Hc. unfold scan_cov in Hc. rewrite Hpc in Hc.
+      apply in_or_app. destruct (Nat.lt_ge_cases (2 * u) i) as [Hl|Hg]; [left; auto|right].
+      assert (Hi : i = (u * 2)%nat) by lia. subst i.
+      rewrite Nat.div_mul, Nat.mod_mul by lia. unfold slot_of.
+      destruct (Nat.eqb_spec u t); [contradiction|]. rewrite Hu. cbn.
+      destruct (H_prot _ _ _ _ _ R u uth p Hu Hp) as (A & _). left. exact A.
+    - unfold xpc. cbn. exact Hx.
+  Qed.
+
+  Lemma case_RdScan_sort p0 i acc : rt_pc th = RdScan p0 i acc -> (2 * length (r_thr c) <= i)%nat ->
+    SGoal (rwith_thr c t (rgoto th (RdFree p0 (isort acc) (rt_rl th) []))).
+  Proof.
+    intros Hpc Hge. pose proof Hpcr as Hpcl. rewrite Hpc in Hpcl. cbn [pcr] in Hpcl.
+    pose proof (X_pc _ _ _ _ _ R t th Hth) as Hx. unfold xpc in Hx. rewrite Hpc in Hx.
+    eapply local_goal with (lt' := lt) (k := 0%nat).
+    - apply abs_stay.
+    - apply (pcr_rel p0 Hpcl); try reflexivity. exists 0. cbn. eauto.
+    - apply nodup_rl.
+    - unfold eff_rl. cbn. rewrite Hpc. reflexivity.
+    - cbn. intros p [].
+    - cbn. discriminate.
+    - noprot.
+    - intros u uth p Hne Hu Hp. unfold scan_cov. cbn [rgoto rt_pc rt_rl]. intros Hin.
+      pose proof (H_scan _ _ _ _ _ R u uth p t th Hu Hp Hth) as Hc. unfold scan_cov in Hc. rewrite Hpc in Hc.
+      assert (Hul : (u < length (r_thr c))%nat) by (apply nth_error_Some; congruence).
+      eapply Permutation_in; [apply Permutation_sym, isort_perm|]. apply Hc; [exact Hin|lia].
+    - unfold xpc. cbn. split; [exact Hx|]. split; [exists []; split; reflexivity|exists acc; reflexivity].
+  Qed.
+
+  Lemma case_RdFree_keep p0 srt a todo kept : rt_pc th = RdFree p0 srt (a :: todo) kept -> keepf srt a = true ->
+    SGoal (rwith_thr c t (rgoto th (RdFree p0 srt todo (kept ++ [a])))).
+  Proof.
+    intros Hpc Hk. pose proof Hpcr as Hpcl. rewrite Hpc in Hpcl. cbn [pcr] in Hpcl.
+    pose proof (X_pc _ _ _ _ _ R t th Hth) as Hx. unfold xpc in Hx. rewrite Hpc in Hx.
+    destruct Hx as (Hl & (pre & Hpre & Hkept) & Hacc).
+    eapply local_goal with (lt' := lt) (k := 0%nat).
+    - apply abs_stay.
+    - apply (pcr_rel p0 Hpcl); try reflexivity. exists 0. cbn. eauto.
+    - apply nodup_rl.
+    - unfold eff_rl. cbn. rewrite Hpc, <- app_assoc. reflexivity.
+    - cbn. intros p [].
+    - cbn. discriminate.
+    - noprot.
+    - intros u uth p Hne Hu Hp. unfold scan_cov. cbn [rgoto rt_pc rt_rl]. intros Hin.
+      pose proof (H_scan _ _ _ _ _ R u uth p t th Hu Hp Hth) as Hc. unfold scan_cov in Hc. rewrite Hpc in Hc.
+      apply Hc. right; exact Hin.
+    - unfold xpc. cbn. split; [exact Hl|]. split; [|exact Hacc]. exists (pre ++ [a]). split.
+      + rewrite Hpre, <- app_assoc. reflexivity.
+      + rewrite filter_app, <- Hkept. cbn [filter]. rewrite Hk. reflexivity.
+  Qed.
+
+  Lemma rdfree_todo_nz p0 srt a todo kept : rt_pc th = RdFree p0 srt (a :: todo) kept -> a <> 0.
+  Proof.
+    intros Hpc Hz. assert (H : st a = SR t).
+    { eapply (G_R _ _ _ _ _ R t th); [exact Hth|]. unfold eff_rl. rewrite Hpc. apply in_or_app; right; left; reflexivity. }
+    assert (H0 : st a = SU) by (apply (G_U _ _ _ _ _ R); left; exact Hz). congruence.
+  Qed.
+
+  Lemma case_RdFree_again p0 srt kept : rt_pc th = RdFree p0 srt [] kept -> length kept = r_fmax c ->
+    SGoal (rwith_thr c t (rgoto th (RdScan p0 0 []))).
+  Proof.
+    intros Hpc Hk. pose proof Hpcr as Hpcl. rewrite Hpc in Hpcl. cbn [pcr] in Hpcl.
+    pose proof (X_pc _ _ _ _ _ R t th Hth) as Hx. unfold xpc in Hx. rewrite Hpc in Hx.
+    destruct Hx as (Hl & (pre & Hpre & Hkept) & Hacc). rewrite app_nil_r in Hpre.
+    assert (Hkp : kept = rt_rl th).
+    { rewrite Hpre, Hkept. apply filter_len_eq. rewrite <- Hkept, Hk, <- Hl, Hpre. reflexivity. }
+    eapply local_goal with (lt' := lt) (k := 0%nat).
+    - apply abs_stay.
+    - apply (pcr_rel p0 Hpcl); try reflexivity. exists 0. cbn. eauto.
+    - apply nodup_rl.
+    - unfold eff_rl. cbn. rewrite Hpc, app_nil_r. congruence.
+    - cbn. intros p [].
+    - cbn. discriminate.
+    - noprot.
+    - intros u uth p _ _ _. unfold scan_cov. cbn. intros _ H9. lia.
+    - unfold xpc. cbn. exact Hl.
+  Qed.
+
+  Lemma case_RdFree_fin p0 srt kept : rt_pc th = RdFree p0 srt [] kept ->
+    SGoal (rwith_thr c t (set_rl (rfinish th (LPtr p0)) kept)).
+  Proof.
+    intros Hpc. pose proof Hpcr as Hpcl. rewrite Hpc in Hpcl. cbn [pcr] in Hpcl. destruct Hpcl as (x & Hpcl).
+    pose proof (X_pc _ _ _ _ _ R t th Hth) as Hx. unfold xpc in Hx. rewrite Hpc in Hx.
+    destruct Hx as (Hl & (pre & Hpre & Hkept) & Hacc). rewrite app_nil_r in Hpre.
+    pose proof HI as (_ & TO & _). pose proof (TO t lt Hlt) as Hp. rewrite Hpcl in Hp. cbn [pcinv] in Hp.
+    destruct (rfin_proj th (LPtr p0)) as (Hf1 & Hf3 & Hf4 & Hf2 & _).
+    eapply local_goal with (lt' := lfinish lt (LPtr p0)).
+    - apply abs_go with (r0 := Some (LPtr p0)); [|nolink Hpcl]. absstep Hlt Hpcl. reflexivity.
+    - eapply threl_fin with (o := LDeq); try exact Htr; try exact Hp; cbn; auto.
+    - cbn. rewrite Hkept. apply NoDup_filter. rewrite <- Hpre. apply nodup_rl.
+    - unfold eff_rl. cbn. rewrite Hf1, Hpc, app_nil_r. reflexivity.
+    - cbn. rewrite Hf1. intros p [].
+    - cbn. rewrite Hf1. discriminate.
+    - cbn. rewrite Hf1. discriminate.
+    - intros. unfold scan_cov. cbn. rewrite Hf1. exact I.
+    - unfold xpc. cbn. rewrite Hf1. exact I.
+  Qed.
+
+  (* ---- qlfqueue_empty: not simulated (the fresh-id machine does not run it) *)
+  Definition is_rm (p : rpc) : bool :=
+    match p with RmLdHead | RmLdTail _ _ | RmLdNext _ _ _ | RmMF _ _ _ _ | RmChk _ _ _ _ => true | _ => false end.
+
+  Lemma rm_facts : is_rm (rt_pc th) = true -> lt_pc lt = LIdle /\ rt_cur th = Some LEmp.
+  Proof.
+    intros H. pose proof Hpcr as Hpcl. pose proof (X_pc _ _ _ _ _ R t th Hth) as Hx. unfold xpc in Hx.
+    set (r := rt_pc th) in H, Hpcl, Hx. clearbody r.
+    destruct r; try discriminate; cbn [pcr apc] in Hpcl; auto.
+  Qed.
+
+  Lemma rm_eff : is_rm (rt_pc th) = true -> eff_rl th = rt_rl th.
+  Proof. unfold eff_rl. intros H. set (r := rt_pc th) in H |- *. clearbody r. destruct r; try discriminate; reflexivity. Qed.
+
+  Lemma case_Rm pc' : is_rm (rt_pc th) = true -> is_rm pc' = true -> SGoal (rwith_thr c t (rgoto th pc')).
+  Proof.
+    intros H1 H2. destruct (rm_facts H1) as (Hpl & Hc).
+    eapply local_goal with (lt' := lt) (k := 0%nat).
+    - apply abs_stay.
+    - eapply threl_mk; try exact Htr; try reflexivity. cbn. rewrite Hpl. destruct pc'; try discriminate; reflexivity.
+    - apply nodup_rl.
+    - rewrite (rm_eff H1). unfold eff_rl. cbn. destruct pc'; try discriminate; reflexivity.
+    - cbn. destruct pc'; try discriminate; intros p [].
+    - cbn. destruct pc'; discriminate.
+    - cbn. destruct pc'; discriminate.
+    - intros. unfold scan_cov. cbn. destruct pc'; try discriminate; exact I.
+    - unfold xpc. cbn. destruct pc'; try discriminate; exact Hc.
+  Qed.
+
+  Lemma case_Rm_fin r0 : is_rm (rt_pc th) = true -> SGoal (rwith_thr c t (rfinish th r0)).
+  Proof.
+    intros H1. destruct (rm_facts H1) as (Hpl & Hc).
+    destruct (rfin_proj th r0) as (Hf1 & Hf3 & Hf4 & Hf2 & _).
+    eapply local_goal with (lt' := lt) (k := 0%nat).
+    - apply abs_stay.
+    - eapply threl_fin_emp with (r := r0); try exact Htr; auto.
+    - rewrite Hf2. apply nodup_rl.
+    - rewrite (rm_eff H1). unfold eff_rl. rewrite Hf1, Hf2. reflexivity.
+    - rewrite Hf1. intros p [].
+    - rewrite Hf1. discriminate.
+    - rewrite Hf1. discriminate.
+    - intros. unfold scan_cov. rewrite Hf1. exact I.
+    - unfold xpc. rewrite Hf1. exact I.
+  Qed.
+
+  (* ---- the three CAS on q->tail *)
+  Lemma tail_goal th' lt' tl' :
+    lrun s (repeat t 1) = mkLS (s_heap s) (s_head s) (pl tl') (s_fresh s) (lset_nth (s_thr s) t lt') (g_enq s) (g_deq s) /\
+    Inv (mkLS (s_heap s) (s_head s) (pl tl') (s_fresh s) (lset_nth (s_thr s) t lt') (g_enq s) (g_deq s)) L /\
+    TInv (mkLS (s_heap s) (s_head s) (pl tl') (s_fresh s) (lset_nth (s_thr s) t lt') (g_enq s) (g_deq s)) L ->
+    threl (pl (r_head c)) th' lt' -> gp la (r_lid c) tl' ->
+    NoDup (rt_rl th') -> eff_rl th' = eff_rl th ->
+    (forall p, In p (pc_ptrs (rt_pc th')) -> gp la (r_lid c) p) ->
+    (forall nd, rpriv (rt_pc th') = Some nd -> rpriv (rt_pc th) = Some nd) ->
+    (forall p, prot0 (rt_pc th') = Some p ->
+       rt_hz0 th' = pa p /\ aget (r_own c) (pa p) = pl p /\ st (pa p) <> SF /\ st (pa p) <> SU /\
+       (forall u uth, u <> t -> nth_error (r_thr c) u = Some uth -> scan_cov t (pa p) uth) /\
+       scan_cov t (pa p) th') ->
+    (forall u uth p, u <> t -> nth_error (r_thr c) u = Some uth -> prot0 (rt_pc uth) = Some p -> scan_cov u (pa p) th') ->
+    xpc st (r_fmax c) t th' ->
+    SGoal (rwith_tail c tl' t th').
+  Proof.
+    intros (A1 & A2 & A3) B1 B0 B2 B3 B4 B5 B6 B7 B8.
+    eexists 1%nat, _, L. split; [exact A1|split; [exact A2|split; [exact A3|]]].
+    exists la, st. eapply rel_local; eauto.
+  Qed.
+
+  Lemma tail_cas_abs lt' (tlx nxx : N) :
+    lstep s t = Some (mkLS (s_heap s) (s_head s) (if s_tail s =? tlx then nxx else s_tail s) (s_fresh s)
+                           (lset_nth (s_thr s) t lt') (g_enq s) (g_deq s), None) ->
+    (forall nd tl, lt_pc lt = QeCasLink nd tl -> n_next (hget (s_heap s) tl) <> 0) ->
+    forall tl', pl tl' = (if s_tail s =? tlx then nxx else s_tail s) ->
+    lrun s (repeat t 1) = mkLS (s_heap s) (s_head s) (pl tl') (s_fresh s) (lset_nth (s_thr s) t lt') (g_enq s) (g_deq s) /\
+    Inv (mkLS (s_heap s) (s_head s) (pl tl') (s_fresh s) (lset_nth (s_thr s) t lt') (g_enq s) (g_deq s)) L /\
+    TInv (mkLS (s_heap s) (s_head s) (pl tl') (s_fresh s) (lset_nth (s_thr s) t lt') (g_enq s) (g_deq s)) L.
+  Proof.
+    intros Hs Hn tl' ->. split; [eapply lrun1; eauto|]. eapply abs1; eauto.
+    intros th0 nd0 tl0 H0. rewrite Hlt in H0. injection H0 as <-. apply Hn.
+  Qed.
+
+  Lemma case_ReCasHelp nd tl nx : rt_pc th = ReCasHelp nd tl nx ->
+    SGoal (rwith_tail c (if pa (r_tail c) =? pa tl then nx else r_tail c) t (rgoto th (ReLdTail nd))).
+  Proof.
+    intros Hpc. pose proof Hpcr as Hpcl. rewrite Hpc in Hpcl. cbn [pcr apc] in Hpcl.
+    assert (Hpr : prot0 (rt_pc th) = Some tl) by (rewrite Hpc; reflexivity).
+    destruct (tail_live _ _ _ _ _ HI HT R) as (TA & TB & TC).
+    assert (Hcmp := prot_cmp tl (r_tail c) Hpr ltac:(apply gp_of; rewrite Hpc; right; left; reflexivity) (G_gpt _ _ _ _ _ R) TB).
+    eapply tail_goal with (lt' := lgoto lt (QeLdTail (pl nd))).
+    - apply tail_cas_abs with (tlx := pl tl) (nxx := pl nx); [absstep Hlt Hpcl; reflexivity|nolink Hpcl|].
+      rewrite Hcmp, (R_tail _ _ _ _ _ R). destruct (pl (r_tail c) =? pl tl); reflexivity.
+    - eapply threl_mk; try exact Htr; try reflexivity.
+    - destruct (pa (r_tail c) =? pa tl); [apply gp_of; rewrite Hpc; right; right; left; reflexivity|apply (G_gpt _ _ _ _ _ R)].
+    - apply nodup_rl.
+    - unfold eff_rl. rewrite Hpc. reflexivity.
+    - cbn. intros p [<-|[]]. apply gp_of. rewrite Hpc. left; reflexivity.
+    - cbn. rewrite Hpc. auto.
+    - noprot.
+    - nocov.
+    - exact I.
+  Qed.
+
+  Lemma case_ReCasSwing nd tl : rt_pc th = ReCasSwing nd tl ->
+    SGoal (rwith_tail c (if pa (r_tail c) =? pa tl then nd else r_tail c) t (rgoto th ReHzClr)).
+  Proof.
+    intros Hpc. pose proof Hpcr as Hpcl. rewrite Hpc in Hpcl. cbn [pcr apc] in Hpcl.
+    assert (Hpr : prot0 (rt_pc th) = Some tl) by (rewrite Hpc; reflexivity).
+    destruct (tail_live _ _ _ _ _ HI HT R) as (TA & TB & TC).
+    assert (Hcmp := prot_cmp tl (r_tail c) Hpr ltac:(apply gp_of; rewrite Hpc; right; left; reflexivity) (G_gpt _ _ _ _ _ R) TB).
+    eapply tail_goal with (lt' := lgoto lt QeHzClr).
+    - apply tail_cas_abs with (tlx := pl tl) (nxx := pl nd); [absstep Hlt Hpcl; reflexivity|nolink Hpcl|].
+      rewrite Hcmp, (R_tail _ _ _ _ _ R). destruct (pl (r_tail c) =? pl tl); reflexivity.
+    - eapply threl_mk; try exact Htr; try reflexivity.
+    - destruct (pa (r_tail c) =? pa tl); [apply gp_of; rewrite Hpc; left; reflexivity|apply (G_gpt _ _ _ _ _ R)].
+    - apply nodup_rl.
+    - unfold eff_rl. rewrite Hpc. reflexivity.
+    - cbn. intros p [].
+    - cbn. discriminate.
+    - noprot.
+    - nocov.
+    - exact I.
+  Qed.
+
+  Lemma case_RdCasHelp tl nx : rt_pc th = RdCasHelp tl nx ->
+    SGoal (rwith_tail c (if pa (r_tail c) =? pa tl then nx else r_tail c) t (rgoto th RdLdHead)).
+  Proof.
+    intros Hpc. pose proof Hpcr as Hpcl. rewrite Hpc in Hpcl. cbn [pcr apc] in Hpcl.
+    assert (Hpr : prot0 (rt_pc th) = Some tl) by (rewrite Hpc; reflexivity).
+    destruct (tail_live _ _ _ _ _ HI HT R) as (TA & TB & TC).
+    assert (Hcmp := prot_cmp tl (r_tail c) Hpr ltac:(apply gp_of; rewrite Hpc; left; reflexivity) (G_gpt _ _ _ _ _ R) TB).
+    eapply tail_goal with (lt' := lgoto lt QdLdHead).
+    - apply tail_cas_abs with (tlx := pl tl) (nxx := pl nx); [absstep Hlt Hpcl; reflexivity|nolink Hpcl|].
+      rewrite Hcmp, (R_tail _ _ _ _ _ R). destruct (pl (r_tail c) =? pl tl); reflexivity.
+    - eapply threl_mk; try exact Htr; try reflexivity.
+    - destruct (pa (r_tail c) =? pa tl); [apply gp_of; rewrite Hpc; right; left; reflexivity|apply (G_gpt _ _ _ _ _ R)].
+    - apply nodup_rl.
+    - unfold eff_rl. rewrite Hpc. reflexivity.
+    - cbn. intros p [].
+    - cbn. discriminate.
+    - noprot.
+    - nocov.
+    - exact I.
+  Qed.
+
+  (* ---- hazardous_release_node: the dequeued node enters the thread's retired list *)
+  Lemma case_RdRel hd p0 : rt_pc th = RdRel hd p0 ->
+    SGoal (rwith_thr c t (set_rl (rgoto th (RdClr0 p0)) (rt_rl th ++ [pa hd]))).
+  Proof.
+    intros Hpc. pose proof Hpcr as Hpcl. rewrite Hpc in Hpcl. cbn [pcr] in Hpcl.
+    pose proof (X_pc _ _ _ _ _ R t th Hth) as Hx. unfold xpc in Hx. rewrite Hpc in Hx.
+    set (a := pa hd) in *.
+    set (st' := fun x => if x =? a then SR t else st x).
+    assert (Hst : forall x, st x <> SP t -> st' x = st x).
+    { intros x H. unfold st'. destruct (N.eqb_spec x a); [subst x; contradiction|reflexivity]. }
+    assert (Hsu : forall x, st' x = SU <-> st x = SU).
+    { intros x. unfold st'. destruct (N.eqb_spec x a); [subst x; rewrite Hx; split; discriminate|tauto]. }
+    assert (Hsf : forall x, st' x = SF <-> st x = SF).
+    { intros x. unfold st'. destruct (N.eqb_spec x a); [subst x; rewrite Hx; split; discriminate|tauto]. }
+    assert (Hlt' : (t < length (r_thr c))%nat) by (apply nth_error_Some; congruence).
+    assert (Heff : eff_rl th = rt_rl th) by (unfold eff_rl; rewrite Hpc; reflexivity).
+    exists 0%nat, s, L. split; [reflexivity|split; [exact HI|split; [exact HT|]]].
+    exists la, st'. pose proof R as R0. destruct R.
+    constructor; cbn [rwith_thr r_head r_tail r_lid rg_enq rg_deq r_thr r_heap r_own r_free r_bump r_fmax]; auto.
+    - rewrite lset_length. assumption.
+    - intros t2 rt H. apply nth_lset_case in H. destruct H as [(-> & -> & _)|(Hne & H)]; [|auto].
+      exists lt. split; [exact Hlt|]. apply (pcr_rel p0 Hpcl); try reflexivity. exists 0. cbn. eauto.
+    - intros b H1 H2. apply R_heap0; [rewrite <- Hsu|rewrite <- Hsf]; assumption.
+    - intros b. rewrite Hsu. apply G_U0.
+    - intros b. rewrite Hsf. apply G_F0.
+    - intros b H. apply G_own0. rewrite <- Hsu. exact H.
+    - intros t2 th2 b H Hb. apply nth_lset_case in H. destruct H as [(-> & -> & _)|(Hne & H)].
+      + unfold eff_rl in Hb. cbn in Hb. apply in_app_or in Hb. unfold st'. destruct (N.eqb_spec b a); [reflexivity|].
+        destruct Hb as [Hb|[Hb|[]]]; [|congruence]. eapply G_R0; [exact Hth|rewrite Heff; exact Hb].
+      + pose proof (G_R0 _ _ _ H Hb) as E. rewrite Hst; [exact E|]. rewrite E. discriminate.
+    - intros t2 th2 H. apply nth_lset_case in H. destruct H as [(-> & -> & _)|(Hne & H)]; [|eauto].
+      cbn. apply NoDup_snoc; [eapply G_Rnd0; eauto|]. intros Hin.
+      assert (E : st a = SR t) by (eapply G_R0; [exact Hth|rewrite Heff; exact Hin]). congruence.
+    - intros l Hl. destruct (G_chain0 l Hl) as [A B]. split; [|exact B]. rewrite Hst; [exact A|congruence].
+    - intros t2 th2 nd H Hp. apply nth_lset_case in H. destruct H as [(-> & -> & _)|(Hne & H)]; [discriminate Hp|].
+      destruct (G_priv0 _ _ _ H Hp) as [A B]. split; [|exact B]. rewrite Hst; [exact A|congruence].
+    - intros b H. apply G_gpn0. rewrite <- Hsu. exact H.
+    - intros t2 th2 p H Hp. apply nth_lset_case in H. destruct H as [(-> & -> & _)|(Hne & H)]; [destruct Hp|eauto].
+    - intros t2 th2 p H Hp. apply nth_lset_case in H. destruct H as [(-> & -> & _)|(Hne & H)]; [discriminate Hp|].
+      destruct (H_prot0 _ _ _ H Hp) as (A & B & C & D). repeat split; auto; [rewrite Hsf|rewrite Hsu]; assumption.
+    - intros t2 th2 p u uth H Hp Hu. apply nth_lset_case in H. destruct H as [(-> & -> & _)|(Hne & H)]; [discriminate Hp|].
+      apply nth_lset_case in Hu. destruct Hu as [(-> & -> & _)|(Hne2 & Hu)]; [unfold scan_cov; cbn; exact I|eauto].
+    - intros t2 th2 H. apply nth_lset_case in H. destruct H as [(-> & -> & _)|(Hne & H)]; [exact I|].
+      pose proof (X_pc0 _ _ H) as Hx2. unfold xpc in *. destruct (rt_pc th2); auto.
+      rewrite Hst; [exact Hx2|]. rewrite Hx2. intros [= ?]. congruence.
+  Qed.
+
+  (* ---- stage 2 of the scan frees a retired node that no collected slot names *)
+  Lemma case_RdFree_free p0 srt a todo kept : rt_pc th = RdFree p0 srt (a :: todo) kept -> keepf srt a = false ->
+    SGoal (mkRS (r_heap c) (r_head c) (r_tail c) (a :: r_free c) (r_bump c) (r_fmax c)
+                (lset_nth (r_thr c) t (rgoto th (RdFree p0 srt todo kept)))
+                (r_lid c) (r_own c) (rg_enq c) (rg_deq c)).
+  Proof.
+    intros Hpc Hk. pose proof Hpcr as Hpcl. rewrite Hpc in Hpcl. cbn [pcr] in Hpcl.
+    pose proof (X_pc _ _ _ _ _ R t th Hth) as Hx. unfold xpc in Hx. rewrite Hpc in Hx.
+    destruct Hx as (Hl & (pre & Hpre & Hkept) & (acc & Hacc)).
+    assert (Heff : eff_rl th = kept ++ a :: todo) by (unfold eff_rl; rewrite Hpc; reflexivity).
+    assert (Hsa : st a = SR t).
+    { eapply (G_R _ _ _ _ _ R t th); [exact Hth|]. rewrite Heff. apply in_or_app; right; left; reflexivity. }
+    assert (Hnd : NoDup (pre ++ a :: todo)) by (rewrite <- Hpre; apply nodup_rl).
+    assert (Hnk : ~ In a (kept ++ todo)).
+    { apply NoDup_remove_2 in Hnd. intros Hin. apply Hnd. apply in_app_or in Hin. apply in_or_app.
+      destruct Hin as [Hin|Hin]; [left|right; exact Hin]. rewrite Hkept in Hin. apply filter_In in Hin. tauto. }
+    set (st' := fun x => if x =? a then SF else st x).
+    assert (Hst : forall x, x <> a -> st' x = st x).
+    { intros x H. unfold st'. destruct (N.eqb_spec x a); [contradiction|reflexivity]. }
+    assert (Hsu : forall x, st' x = SU <-> st x = SU).
+    { intros x. unfold st'. destruct (N.eqb_spec x a); [subst x; rewrite Hsa; split; discriminate|tauto]. }
+    assert (Hnsf : forall x, st' x <> SF -> st x <> SF /\ x <> a).
+    { intros x. unfold st'. destruct (N.eqb_spec x a); [congruence|auto]. }
+    assert (Hnf : keepf srt a = false -> ~ In a srt).
+    { intros _ Hin. subst srt. unfold keepf in Hk. rewrite (found_sorted _ _ Hin) in Hk. discriminate. }
+    exists 0%nat, s, L. split; [reflexivity|split; [exact HI|split; [exact HT|]]].
+    exists la, st'. pose proof R as R0. destruct R.
+    constructor; cbn [r_head r_tail r_lid rg_enq rg_deq r_thr r_heap r_own r_free r_bump r_fmax]; auto.
+    - rewrite lset_length. assumption.
+    - intros t2 rt H. apply nth_lset_case in H. destruct H as [(-> & -> & _)|(Hne & H)]; [|auto].
+      exists lt. split; [exact Hlt|]. apply (pcr_rel p0 Hpcl); try reflexivity. exists 0. cbn. eauto.
+    - intros b H1 H2. destruct (Hnsf b H2) as [H3 _]. apply R_heap0; [rewrite <- Hsu; exact H1|exact H3].
+    - intros b. rewrite Hsu. apply G_U0.
+    - intros b. unfold st'. destruct (N.eqb_spec b a) as [->|Hne].
+      + split; [intros _; left; reflexivity|reflexivity].
+      + rewrite G_F0. split; [intros H; right; exact H|intros [H|H]; [congruence|exact H]].
+    - constructor; [|exact G_Fnd0]. intros Hin. apply G_F0 in Hin. congruence.
+    - intros b H. apply G_own0. rewrite <- Hsu. exact H.
+    - intros t2 th2 b H Hb. apply nth_lset_case in H. destruct H as [(-> & -> & _)|(Hne & H)].
+      + unfold eff_rl in Hb. cbn in Hb. assert (b <> a) by (intros ->; contradiction). rewrite Hst by assumption.
+        eapply G_R0; [exact Hth|]. rewrite Heff. apply in_app_or in Hb. apply in_or_app. destruct Hb; [left|right; right]; assumption.
+      + pose proof (G_R0 _ _ _ H Hb) as E. rewrite Hst; [exact E|]. intros ->. congruence.
+    - intros t2 th2 H. apply nth_lset_case in H. destruct H as [(-> & -> & _)|(Hne & H)]; [cbn [rgoto rt_rl]|]; eauto.
+    - intros l Hl0. destruct (G_chain0 l Hl0) as [A B]. split; [|exact B]. rewrite Hst; [exact A|congruence].
+    - intros t2 th2 nd H Hp. apply nth_lset_case in H. destruct H as [(-> & -> & _)|(Hne & H)]; [discriminate Hp|].
+      destruct (G_priv0 _ _ _ H Hp) as [A B]. split; [|exact B]. rewrite Hst; [exact A|congruence].
+    - intros b H. apply G_gpn0. rewrite <- Hsu. exact H.
+    - intros t2 th2 p H Hp. apply nth_lset_case in H. destruct H as [(-> & -> & _)|(Hne & H)]; [destruct Hp|eauto].
+    - intros t2 th2 p H Hp. apply nth_lset_case in H. destruct H as [(-> & -> & _)|(Hne & H)]; [discriminate Hp|].
+      destruct (H_prot0 _ _ _ H Hp) as (A & B & C & D).
+      assert (Hpa : pa p <> a).
+      { intros E. pose proof (H_scan0 _ _ _ _ _ H Hp Hth) as Hc. unfold scan_cov in Hc. rewrite Hpc in Hc.
+        apply (Hnf Hk). rewrite <- E. apply Hc. left. auto. }
+      repeat split; auto; [rewrite Hst; assumption|rewrite Hsu; assumption].
+    - intros t2 th2 p u uth H Hp Hu. apply nth_lset_case in H. destruct H as [(-> & -> & _)|(Hne & H)]; [discriminate Hp|].
+      apply nth_lset_case in Hu. destruct Hu as [(-> & -> & _)|(Hne2 & Hu)]; [|eauto].
+      pose proof (H_scan0 _ _ _ _ _ H Hp Hth) as Hc. unfold scan_cov in *. rewrite Hpc in Hc. cbn. intros Hin. apply Hc. right; exact Hin.
+    - intros t2 th2 H. apply nth_lset_case in H. destruct H as [(-> & -> & _)|(Hne & H)].
+      + unfold xpc. cbn. split; [exact Hl|]. split; [|exists acc; exact Hacc]. exists (pre ++ [a]). split.
+        * rewrite Hpre, <- app_assoc. reflexivity.
+        * rewrite filter_app, <- Hkept. cbn [filter]. rewrite Hk, app_nil_r. reflexivity.
+      + pose proof (X_pc0 _ _ H) as Hx2. unfold xpc in *. destruct (rt_pc th2); auto.
+        rewrite Hst; [exact Hx2|]. intros E. rewrite E in Hx2. congruence.
+  Qed.
+
+End Step.
